@@ -1,12 +1,22 @@
 //! C14 — Merkle whitelist membership is complete and sound.
 //!
 //! The REAL `whitelist-merkletree` (SHA-256) and `tiered-whitelist-merkletree` (BLAKE3 truncated to 16 bytes) contracts
-//! and the three Merkle minters run in a cw-multi-test `App`; trees and proofs come from `rs_merkle` with the repo's own
-//! sorting hasher (`whitelist_mtree::tests::hasher::SortingSha256Hasher`; the BLAKE3 twin below has the same shape).
-//! Every line is also executed by the Lean driver (`LP.Merkle`, `LP.MerkleWl`, Lean SHA-256 / BLAKE3).
+//! and the three Merkle minters run in a cw-multi-test `App`. Trees and proofs come from `rs_merkle` with LOCAL sorting
+//! hashers (copies of the shape of the repo's test hasher — not the repo's own, so that a change to the contract that is
+//! mirrored in the repo's test module cannot silently move the monitors with it); a second, hand-rolled layered builder
+//! computes every root again and the inner-node preimages. Every line is also executed by the Lean driver
+//! (`LP.Merkle`, `LP.MerkleWl`, Lean SHA-256 / BLAKE3).
 //!
-//! Protocol: see `lean/LaunchpadModel/Driver/C14.lean`.
-use std::collections::{BTreeMap, HashMap, HashSet};
+//! Protocol and the primary / drift split: see `lean/LaunchpadModel/Driver/C14.lean`.
+//!
+//! What the monitors know independently of the code under test:
+//! * the root(s) the harness SENT at instantiate (`sent_roots`) and the member list each root commits to (`by_root`);
+//! * each member's own `rs_merkle` proof;
+//! * its own count of the whitelist mints it saw accepted per `(sender, window)` (`ghost_mints`);
+//! * the message surface, enumerated at RUN TIME from `schema_for!(ExecuteMsg)`: a variant this harness has no protocol
+//!   op for is SENT (raw JSON, arguments from the schema, another VALID root wherever a string is wanted) under the same
+//!   monitors, so a newly dispatched `update_merkle_tree` yields a replay instead of a harness that no longer compiles.
+use std::collections::{BTreeMap, BTreeSet, HashMap, HashSet};
 
 use cosmwasm_std::{coin, Addr, BlockInfo, Empty, Timestamp};
 use cw_multi_test::{BankSudo, Executor, SudoMsg};
@@ -15,17 +25,56 @@ use lp_harness::world::*;
 use lp_harness::*;
 use rs_merkle::{Hasher, MerkleTree};
 use serde_json::{json, Value};
-use whitelist_mtree::tests::hasher::SortingSha256Hasher;
 
 const GENESIS: u64 = sg_utils::GENESIS_MINT_START_TIME;
 /// public sale of every minter starts here (far beyond every whitelist window of a case): public mints are closed
 const HORIZON: u64 = GENESIS + 1_000_000_000_000_000;
+/// the whitelist price the harness configures (what it attaches to a mint is what the minter QUOTES, see `op_mint`)
 const WL_PRICE: u128 = 100_000_000;
 const CREATOR: u64 = 10;
 
+/// creation fee of the whitelist contract, from the crate itself (the Lean side uses the regenerated constant)
+fn creation_fee(tiered: bool) -> u128 {
+    if tiered {
+        tiered_whitelist_merkletree::contract::CREATION_FEE
+    } else {
+        whitelist_mtree::contract::CREATION_FEE
+    }
+}
+
 // ------------------------------------------------------------------------------------------------ trees
 
-/// BLAKE3/16 twin of the repo's `SortingSha256Hasher` (the tiered crate ships no hasher of its own)
+fn sha256_32(data: &[u8]) -> [u8; 32] {
+    use sha2::Digest;
+    sha2::Sha256::digest(data).into()
+}
+fn blake3_16(data: &[u8]) -> [u8; 16] {
+    blake3::hash(data).as_bytes()[..16].try_into().unwrap()
+}
+
+/// local SHA-256 sorting hasher (same shape as `whitelist-merkletree/src/tests/hasher.rs`, deliberately NOT imported)
+#[derive(Clone)]
+struct SortingSha256Hasher {}
+impl Hasher for SortingSha256Hasher {
+    type Hash = [u8; 32];
+    fn concat_and_hash(left: &Self::Hash, right: Option<&Self::Hash>) -> Self::Hash {
+        match right {
+            Some(right_node) => {
+                let mut both = [left, right_node];
+                both.sort_unstable();
+                let mut concatenated: Vec<u8> = (*both[0]).into();
+                concatenated.append(&mut (*both[1]).into());
+                Self::hash(&concatenated)
+            }
+            None => *left,
+        }
+    }
+    fn hash(data: &[u8]) -> Self::Hash {
+        sha256_32(data)
+    }
+}
+
+/// BLAKE3/16 twin (the tiered crate ships no hasher of its own)
 #[derive(Clone)]
 struct SortingBlake3Hasher {}
 impl Hasher for SortingBlake3Hasher {
@@ -43,7 +92,7 @@ impl Hasher for SortingBlake3Hasher {
         }
     }
     fn hash(data: &[u8]) -> Self::Hash {
-        blake3::hash(data).as_bytes()[..16].try_into().unwrap()
+        blake3_16(data)
     }
 }
 
@@ -75,26 +124,245 @@ impl Tree {
     }
 }
 
+/// the layered construction once more, by hand (no rs_merkle): root and the preimage of every inner node
+fn own_layers(tiered: bool, members: &[String]) -> (Option<Vec<u8>>, HashSet<Vec<u8>>) {
+    let h = |d: &[u8]| -> Vec<u8> {
+        if tiered {
+            blake3_16(d).to_vec()
+        } else {
+            sha256_32(d).to_vec()
+        }
+    };
+    let mut layer: Vec<Vec<u8>> = members.iter().map(|m| h(m.as_bytes())).collect();
+    let mut inner = HashSet::new();
+    if layer.is_empty() {
+        return (None, inner);
+    }
+    while layer.len() > 1 {
+        let mut up = Vec::with_capacity((layer.len() + 1) / 2);
+        for pair in layer.chunks(2) {
+            if pair.len() == 2 {
+                let (x, y) = if pair[0] <= pair[1] { (&pair[0], &pair[1]) } else { (&pair[1], &pair[0]) };
+                let mut pre = x.clone();
+                pre.extend_from_slice(y);
+                up.push(h(&pre));
+                inner.insert(pre);
+            } else {
+                up.push(pair[0].clone());
+            }
+        }
+        layer = up;
+    }
+    (Some(layer.remove(0)), inner)
+}
+
+/// what the harness knows about a list it committed to
+struct Committed {
+    slot: u64,
+    set: HashSet<String>,
+    /// preimages of the inner nodes (the strings the partial soundness theorem excepts: no leaf/inner domain separation)
+    inner: HashSet<Vec<u8>>,
+}
+
+// ------------------------------------------------------------------------------------------------ the message surface (run time)
+
+/// the `ExecuteMsg` variants of one crate as enumerated from its JSON schema at run time
+struct Surface {
+    /// (variant name, schema of its payload)
+    variants: Vec<(String, Value)>,
+    defs: Value,
+}
+
+/// variant names this harness has a protocol op for
+fn known_variants(tiered: bool) -> &'static [(&'static str, &'static str)] {
+    if tiered {
+        &[("update_stage_config", "update_stage"), ("update_admins", "update_admins"), ("freeze", "freeze")]
+    } else {
+        &[("update_start_time", "update_start"), ("update_end_time", "update_end"), ("update_admins", "update_admins"), ("freeze", "freeze")]
+    }
+}
+
+fn surface_of(tiered: bool) -> Surface {
+    let root = if tiered {
+        serde_json::to_value(cosmwasm_schema::schema_for!(tiered_whitelist_merkletree::msg::ExecuteMsg))
+    } else {
+        serde_json::to_value(cosmwasm_schema::schema_for!(whitelist_mtree::msg::ExecuteMsg))
+    }
+    .unwrap_or(Value::Null);
+    let mut variants = vec![];
+    for alt in root["oneOf"].as_array().or(root["anyOf"].as_array()).cloned().unwrap_or_default() {
+        if let Some(names) = alt["enum"].as_array() {
+            for n in names {
+                if let Some(n) = n.as_str() {
+                    variants.push((n.to_string(), Value::Null));
+                }
+            }
+        } else if let Some(props) = alt["properties"].as_object() {
+            for (k, sch) in props {
+                variants.push((k.clone(), sch.clone()));
+            }
+        }
+    }
+    Surface { variants, defs: root["definitions"].clone() }
+}
+
+struct Fill<'a> {
+    defs: &'a Value,
+    /// put wherever a string is wanted: another VALID root, so that a root-writing message gets past `verify_merkle_root`
+    text: &'a str,
+    /// length of string arrays
+    n: usize,
+    int: u64,
+    /// fill optional fields too
+    opts: bool,
+}
+impl<'a> Fill<'a> {
+    fn is_stringy(&self, schema: &Value, depth: u32) -> bool {
+        if depth > 10 {
+            return false;
+        }
+        if let Some(r) = schema["$ref"].as_str() {
+            let name = r.rsplit('/').next().unwrap_or("");
+            return self.is_stringy(&self.defs[name], depth + 1);
+        }
+        schema["type"] == "string"
+    }
+    /// a JSON value the schema admits: required fields (all fields with `opts`), numbers = `int` (as string for the
+    /// cosmwasm number types), strings = `text`, string arrays = `[text; n]`
+    fn value(&self, schema: &Value, depth: u32) -> Value {
+        if depth > 10 {
+            return Value::Null;
+        }
+        if let Some(r) = schema["$ref"].as_str() {
+            let name = r.rsplit('/').next().unwrap_or("");
+            if ["Uint64", "Uint128", "Uint256", "Timestamp", "Decimal", "Int64", "Int128"].contains(&name) {
+                return json!(self.int.to_string());
+            }
+            return self.value(&self.defs[name], depth + 1);
+        }
+        for key in ["allOf", "anyOf", "oneOf"] {
+            if let Some(a) = schema[key].as_array() {
+                if key != "allOf" && a.iter().any(|x| x["type"] == "null") {
+                    if !self.opts {
+                        return Value::Null;
+                    }
+                    if let Some(first) = a.iter().find(|x| x["type"] != "null") {
+                        return self.value(first, depth + 1);
+                    }
+                    return Value::Null;
+                }
+                if let Some(first) = a.first() {
+                    return self.value(first, depth + 1);
+                }
+            }
+        }
+        if let Some(e) = schema["enum"].as_array() {
+            return e.first().cloned().unwrap_or(Value::Null);
+        }
+        let ty = match &schema["type"] {
+            Value::String(s) => s.clone(),
+            Value::Array(a) => {
+                if a.iter().any(|x| x == "null") && !self.opts {
+                    return Value::Null;
+                }
+                a.iter().filter_map(|x| x.as_str()).find(|x| *x != "null").unwrap_or("object").to_string()
+            }
+            _ => "object".to_string(),
+        };
+        match ty.as_str() {
+            "object" => {
+                let mut o = serde_json::Map::new();
+                let keys: Vec<String> = if self.opts {
+                    schema["properties"].as_object().map(|p| p.keys().cloned().collect()).unwrap_or_default()
+                } else {
+                    schema["required"].as_array().cloned().unwrap_or_default().iter().filter_map(|k| k.as_str().map(String::from)).collect()
+                };
+                for k in keys {
+                    o.insert(k.clone(), self.value(&schema["properties"][&k], depth + 1));
+                }
+                Value::Object(o)
+            }
+            "array" => {
+                let items = &schema["items"];
+                if self.is_stringy(items, depth + 1) {
+                    json!(vec![self.text.to_string(); self.n])
+                } else if self.opts {
+                    json!([self.value(items, depth + 1)])
+                } else {
+                    json!([])
+                }
+            }
+            "string" => json!(self.text),
+            "integer" | "number" => json!(self.int),
+            "boolean" => json!(false),
+            _ => Value::Null,
+        }
+    }
+}
+
+/// The JSON for `exec op=raw name=<variant> shape=<k> root=<hex> nroots=<n>`: schema-guided when the variant exists in the
+/// crate's `ExecuteMsg`, otherwise a guess at how `execute_update_merkle_tree` (present in both sources, not dispatched)
+/// would be exposed.
+fn raw_message(surface: &Surface, name: &str, shape: u64, root: &str, nroots: usize, now: u64) -> Value {
+    if let Some((_, sch)) = surface.variants.iter().find(|(n, _)| n == name) {
+        if sch.is_null() {
+            return json!(name); // unit variant
+        }
+        let f = Fill { defs: &surface.defs, text: root, n: if shape & 2 == 2 { 1 } else { nroots.max(1) }, int: now, opts: shape & 1 == 1 };
+        let mut o = serde_json::Map::new();
+        o.insert(name.to_string(), f.value(sch, 0));
+        return Value::Object(o);
+    }
+    let roots = vec![root.to_string(); nroots.max(1)];
+    let body = match shape {
+        0 => json!({"merkle_root": root, "merkle_tree_uri": null}),
+        1 => json!({"merkle_roots": roots, "merkle_tree_uris": null}),
+        2 => json!(root),
+        3 => json!(roots),
+        4 => json!({"merkle_root": root, "merkle_tree_uri": "ipfs://tree"}),
+        5 => json!({"merkle_roots": roots, "merkle_tree_uris": ["ipfs://tree"]}),
+        _ => json!({}),
+    };
+    let mut o = serde_json::Map::new();
+    o.insert(name.to_string(), body);
+    Value::Object(o)
+}
+
 // ------------------------------------------------------------------------------------------------ Sut
 
 struct S {
     tiered: bool,
+    /// `literal=1` in the case header: the soundness monitor transcribes the LITERAL clause (no exception for inner-node
+    /// preimages); used by the counter-example replay in corpus/C14
+    literal: bool,
     pending: Vec<String>,
     slots: BTreeMap<u64, (Tree, Vec<String>)>,
-    /// lower-case root hex -> (slot, member set): what the monitors know about the committed lists
-    by_root: HashMap<String, (u64, HashSet<String>)>,
+    /// lower-case root hex -> what the harness committed to with it
+    by_root: HashMap<String, Committed>,
     app: Option<App>,
     wl: Option<Addr>,
     wl_code: u64,
     minter: Option<Addr>,
-    roots0: Vec<String>,
+    /// the root(s) of the `inst` line, exactly as sent
+    sent_roots: Vec<String>,
+    /// (sender, window key) -> whitelist mints the harness saw accepted
+    ghost_mints: HashMap<(String, u64), u64>,
     height: u64,
     viol: Option<(String, String)>,
+    surface: [Surface; 2],
+    /// classes / notes for the session (drained by `Ctx::step`)
+    marks: Vec<String>,
+    notes: BTreeSet<String>,
 }
 
-fn fresh(tiered: bool) -> S {
+fn no_surface() -> [Surface; 2] {
+    [Surface { variants: vec![], defs: Value::Null }, Surface { variants: vec![], defs: Value::Null }]
+}
+
+fn fresh(tiered: bool, surface: [Surface; 2]) -> S {
     S {
         tiered,
+        literal: false,
         pending: vec![],
         slots: BTreeMap::new(),
         by_root: HashMap::new(),
@@ -102,9 +370,13 @@ fn fresh(tiered: bool) -> S {
         wl: None,
         wl_code: 0,
         minter: None,
-        roots0: vec![],
+        sent_roots: vec![],
+        ghost_mints: HashMap::new(),
         height: 100,
         viol: None,
+        surface,
+        marks: vec![],
+        notes: BTreeSet::new(),
     }
 }
 
@@ -145,33 +417,19 @@ fn leaf_string(stage: Option<u64>, sender: &str, alloc: Option<u64>) -> String {
     s
 }
 
-/// wildcard-free matches: a new execute variant (e.g. a dispatched `UpdateMerkleTree`) stops this from compiling
-#[allow(dead_code)]
-fn plain_surface(m: &whitelist_mtree::msg::ExecuteMsg) -> &'static str {
-    use whitelist_mtree::msg::ExecuteMsg::*;
-    match m {
-        UpdateStartTime(_) => "update_start",
-        UpdateEndTime(_) => "update_end",
-        UpdateAdmins { .. } => "p_update_admins",
-        Freeze {} => "p_freeze",
-    }
-}
-#[allow(dead_code)]
-fn tiered_surface(m: &tiered_whitelist_merkletree::msg::ExecuteMsg) -> &'static str {
-    use tiered_whitelist_merkletree::msg::ExecuteMsg::*;
-    match m {
-        UpdateStageConfig(_) => "update_stage",
-        UpdateAdmins { .. } => "t_update_admins",
-        Freeze {} => "t_freeze",
-    }
-}
-
 impl S {
     fn n(&self) -> usize {
         if self.tiered {
             16
         } else {
             32
+        }
+    }
+    fn cname(&self) -> &'static str {
+        if self.tiered {
+            "tiered-whitelist-merkletree"
+        } else {
+            "whitelist-merkletree"
         }
     }
     fn set_time(&mut self, now: u64) {
@@ -181,76 +439,129 @@ impl S {
             app.set_block(BlockInfo { height: h, time: Timestamp::from_nanos(now), chain_id: "stargaze-1".into() });
         }
     }
-    fn mint_to(&mut self, to: &str, amt: u128, d: u64) {
+    fn mint_to(&mut self, to: &str, amt: u128, d: &str) {
         if amt == 0 {
             return;
         }
         let app = self.app.as_mut().unwrap();
-        app.sudo(SudoMsg::Bank(BankSudo::Mint { to_address: to.to_string(), amount: vec![coin(amt, denom(d))] })).unwrap();
+        let _ = catch(|| app.sudo(SudoMsg::Bank(BankSudo::Mint { to_address: to.to_string(), amount: vec![coin(amt, d)] })));
+    }
+    fn query(&self, c: &Addr, q: &Value) -> Result<Value, String> {
+        let app = self.app.as_ref().unwrap();
+        catch(|| app.wrap().query_wasm_smart::<Value>(c.clone(), q).map_err(|e| e.to_string()))?
     }
 
     fn roots(&self) -> Result<Vec<String>, String> {
-        let app = self.app.as_ref().unwrap();
         let wl = self.wl.clone().unwrap();
-        catch(|| -> Result<Vec<String>, String> {
-            if self.tiered {
-                let v: Value = app.wrap().query_wasm_smart(wl, &json!({"merkle_roots": {}})).map_err(|e| e.to_string())?;
-                Ok(v["merkle_roots"].as_array().unwrap().iter().map(|x| x.as_str().unwrap().to_string()).collect())
-            } else {
-                let v: Value = app.wrap().query_wasm_smart(wl, &json!({"merkle_root": {}})).map_err(|e| e.to_string())?;
-                Ok(vec![v["merkle_root"].as_str().unwrap().to_string()])
-            }
-        })?
+        if self.tiered {
+            let v = self.query(&wl, &json!({"merkle_roots": {}}))?;
+            Ok(v["merkle_roots"].as_array().ok_or("no merkle_roots")?.iter().map(|x| x.as_str().unwrap_or("?").to_string()).collect())
+        } else {
+            let v = self.query(&wl, &json!({"merkle_root": {}}))?;
+            Ok(vec![v["merkle_root"].as_str().ok_or("no merkle_root")?.to_string()])
+        }
     }
     fn admins(&self) -> (Vec<u64>, bool) {
-        let app = self.app.as_ref().unwrap();
-        let v: Value = app.wrap().query_wasm_smart(self.wl.clone().unwrap(), &json!({"admin_list": {}})).unwrap();
-        (v["admins"].as_array().unwrap().iter().map(|x| addr_id(x.as_str().unwrap())).collect(), v["mutable"].as_bool().unwrap())
+        match self.query(&self.wl.clone().unwrap(), &json!({"admin_list": {}})) {
+            Ok(v) => (
+                v["admins"].as_array().map(|a| a.iter().map(|x| addr_id(x.as_str().unwrap_or(""))).collect()).unwrap_or_default(),
+                v["mutable"].as_bool().unwrap_or(false),
+            ),
+            Err(_) => (vec![], false),
+        }
     }
-    /// (start, end, pal, denom) of every stage, from raw storage (the `Stages` query indexes MERKLE_ROOTS and may panic)
+    /// (start, end, pal, denom) of every stage, through the crate's typed `state::CONFIG` (the `Stages` query indexes
+    /// MERKLE_ROOTS and panics when there are fewer roots than stages)
     fn stages(&self) -> Vec<(u64, u64, u64, u64)> {
         let app = self.app.as_ref().unwrap();
         let st = app.contract_storage(&self.wl.clone().unwrap());
-        let cfg = tiered_whitelist_merkletree::state::CONFIG.load(&*st).unwrap();
-        cfg.stages.iter().map(|s| (s.start_time.nanos(), s.end_time.nanos(), s.per_address_limit as u64, denom_id(&s.mint_price.denom))).collect()
+        match tiered_whitelist_merkletree::state::CONFIG.load(&*st) {
+            Ok(cfg) => cfg.stages.iter().map(|s| (s.start_time.nanos(), s.end_time.nanos(), s.per_address_limit as u64, denom_id(&s.mint_price.denom))).collect(),
+            Err(_) => vec![],
+        }
     }
-    /// the property's notion of "currently active stage": the first window containing `now` (both ends inclusive, as the
-    /// code has it; the exact window semantics is C13's subject)
-    fn active_idx(&self, now: u64) -> Option<usize> {
-        self.stages().iter().position(|s| s.0 <= now && now <= s.1)
+    /// (start, end, pal) of the plain whitelist, through its `Config` query
+    fn plain_cfg(&self) -> (u64, u64, u64, bool) {
+        match self.query(&self.wl.clone().unwrap(), &json!({"config": {}})) {
+            Ok(c) => (
+                c["start_time"].as_str().and_then(|s| s.parse().ok()).unwrap_or(0),
+                c["end_time"].as_str().and_then(|s| s.parse().ok()).unwrap_or(0),
+                c["per_address_limit"].as_u64().unwrap_or(0),
+                c["is_active"].as_bool().unwrap_or(false),
+            ),
+            Err(_) => (0, 0, 0, false),
+        }
     }
-    fn obs(&self, _now: u64) -> String {
-        let roots = self.roots().unwrap_or_else(|e| vec![format!("query-failed:{e}")]);
+    /// The property's notion of "window in force" evaluated by the harness on the configured windows:
+    /// tiered = the first stage whose window contains `now`, both ends inclusive → `Some(i)`;
+    /// plain  = `start ≤ now < end` → `Some(0)`. (`None` = no window.) Used by the monitors only.
+    fn window_idx(&self, now: u64) -> Option<usize> {
+        if self.tiered {
+            self.stages().iter().position(|s| s.0 <= now && now <= s.1)
+        } else {
+            let (s, e, _, _) = self.plain_cfg();
+            if s <= now && now < e {
+                Some(0)
+            } else {
+                None
+            }
+        }
+    }
+    /// the minter-side key of the window in force (0 = plain list, i+1 = tiered stage i)
+    fn window_key(&self, now: u64) -> Option<u64> {
+        self.window_idx(now).map(|i| if self.tiered { i as u64 + 1 } else { 0 })
+    }
+    /// what the contract itself reports as active (primary column `active=`)
+    fn reported_active(&self) -> String {
+        let wl = self.wl.clone().unwrap();
+        if self.tiered {
+            match self.query(&wl, &json!({"active_stage_id": {}})) {
+                Ok(v) => v.as_u64().map(|x| x.to_string()).unwrap_or_else(|| "?".into()),
+                Err(_) => "query-failed".into(),
+            }
+        } else {
+            (self.plain_cfg().3 as u8).to_string()
+        }
+    }
+    fn obs_primary(&self) -> String {
+        let roots = self.roots().unwrap_or_else(|_| vec!["query-failed".to_string()]);
+        format!("roots={} active={}", fmt_strs(&roots), self.reported_active())
+    }
+    /// (drift column, witness fields) — the configuration C11/C12/C13 own
+    fn obs_cfg(&self) -> (String, String) {
         let (admins, mutable) = self.admins();
         if self.tiered {
             let stages = self.stages();
-            let st = if stages.is_empty() {
-                "-".to_string()
-            } else {
-                stages.iter().map(|s| format!("{}:{}:{}:{}", s.0, s.1, s.2, s.3)).collect::<Vec<_>>().join(";")
-            };
-            let app = self.app.as_ref().unwrap();
-            let active: u64 = app.wrap().query_wasm_smart(self.wl.clone().unwrap(), &json!({"active_stage_id": {}})).unwrap();
-            format!("roots={} stages={} active={} admins={} mut={}", fmt_strs(&roots), st, active, fmt_list(&admins), mutable as u8)
+            let st = if stages.is_empty() { "-".to_string() } else { stages.iter().map(|s| format!("{}:{}:{}:{}", s.0, s.1, s.2, s.3)).collect::<Vec<_>>().join(";") };
+            (
+                format!("stages={} admins={} mut={}", st, fmt_list(&admins), mutable as u8),
+                format!("w_stages={} w_admins={} w_mut={}", st, fmt_list(&admins), mutable as u8),
+            )
         } else {
-            let app = self.app.as_ref().unwrap();
-            let c: Value = app.wrap().query_wasm_smart(self.wl.clone().unwrap(), &json!({"config": {}})).unwrap();
-            let start: u64 = c["start_time"].as_str().unwrap().parse().unwrap();
-            let end: u64 = c["end_time"].as_str().unwrap().parse().unwrap();
-            format!(
-                "roots={} start={} end={} active={} pal={} admins={} mut={}",
-                fmt_strs(&roots), start, end, c["is_active"].as_bool().unwrap() as u8, c["per_address_limit"].as_u64().unwrap(), fmt_list(&admins), mutable as u8
+            let (start, end, pal, _) = self.plain_cfg();
+            (
+                format!("start={start} end={end} pal={pal} admins={} mut={}", fmt_list(&admins), mutable as u8),
+                format!("w_start={start} w_end={end} w_pal={pal} w_admins={} w_mut={}", fmt_list(&admins), mutable as u8),
             )
         }
     }
+    /// MONITOR "the root cannot be changed by any call": the stored root(s) are the ones the harness SENT
     fn check_roots_unchanged(&mut self, op: &str) {
-        if self.viol.is_some() {
+        if self.viol.is_some() || self.wl.is_none() {
             return;
         }
-        if let Ok(r) = self.roots() {
-            if r != self.roots0 {
-                let c = if self.tiered { "tiered-whitelist-merkletree" } else { "whitelist-merkletree" };
-                self.viol = Some((format!("{c}/{op}/root-changed"), format!("stored root(s) {:?} differ from the instantiated {:?}", r, self.roots0)));
+        match self.roots() {
+            Ok(r) => {
+                // (hex case is not a change of the commitment: a contract that normalises the case of what it was sent is
+                // judged by the membership answers — primary column — not here)
+                let same = r.len() == self.sent_roots.len() && r.iter().zip(self.sent_roots.iter()).all(|(x, y)| x.eq_ignore_ascii_case(y));
+                if !same {
+                    self.viol = Some((format!("{}/{op}/root-changed", self.cname()), format!("stored root(s) {:?} differ from the root(s) sent at instantiate {:?}", r, self.sent_roots)));
+                }
+            }
+            Err(e) => {
+                self.notes.insert(format!("root query failed after `{op}`: {}", &e[..e.len().min(120)]));
+                self.marks.push("monitor:root-query-failed".into());
             }
         }
     }
@@ -261,12 +572,9 @@ impl S {
         let Some(h) = kv(line, "m") else { return "bad-op".into() };
         let Ok(m) = hex::decode(h) else { return "bad-op".into() };
         match kv(line, "alg") {
-            Some("sha256") => {
-                use sha2::Digest;
-                format!("ok {}", hex::encode(sha2::Sha256::digest(&m)))
-            }
+            Some("sha256") => format!("ok {}", hex::encode(sha256_32(&m))),
             Some("blake3") => format!("ok {}", hex::encode(blake3::hash(&m).as_bytes())),
-            Some("blake3_16") => format!("ok {}", hex::encode(&blake3::hash(&m).as_bytes()[..16])),
+            Some("blake3_16") => format!("ok {}", hex::encode(blake3_16(&m))),
             _ => "bad-op".into(),
         }
     }
@@ -276,8 +584,13 @@ impl S {
         let members = std::mem::take(&mut self.pending);
         let tree = Tree::build(self.tiered, &members);
         let root = tree.root_hex();
+        let (own_root, inner) = own_layers(self.tiered, &members);
+        if own_root.as_ref().map(hex::encode) != root {
+            self.notes.insert(format!("UNEXPECTED: rs_merkle root {:?} differs from the hand-rolled layered root {:?}", root, own_root.map(hex::encode)));
+            self.marks.push("UNEXPECTED:own-root-differs".into());
+        }
         if let Some(r) = &root {
-            self.by_root.insert(r.clone(), (slot, members.iter().cloned().collect()));
+            self.by_root.insert(r.clone(), Committed { slot, set: members.iter().cloned().collect(), inner });
         }
         self.slots.insert(slot, (tree, members));
         format!("ok {}", root.unwrap_or_else(|| "-".into()))
@@ -293,17 +606,18 @@ impl S {
         }
     }
 
-    fn op_inst(&mut self, line: &str) -> String {
+    fn op_inst(&mut self, line: &str) -> (String, String) {
         let now = kv_u64(line, "now").unwrap();
         let mut app = boxes::custom_mock_app();
         self.wl_code = app.store_code(if self.tiered { boxes::tiered_whitelist_mtree() } else { boxes::whitelist_mtree() });
         self.app = Some(app);
         self.wl = None;
         self.minter = None;
+        self.ghost_mints.clear();
         self.set_time(now);
         let funds_p = kv_pairs(line, "funds").unwrap();
         for (d, amt) in &funds_p {
-            self.mint_to(&addr(CREATOR), *amt, *d as u64);
+            self.mint_to(&addr(CREATOR), *amt, &denom(*d as u64));
         }
         let funds = coins_of(&funds_p);
         let mut admins: Vec<String> = kv_list(line, "admins").unwrap().iter().map(|i| addr(*i as u64)).collect();
@@ -312,7 +626,7 @@ impl S {
         }
         let mutable = kv_bool(line, "mutable").unwrap();
         let uri_ok = kv_bool(line, "uri_ok").unwrap();
-        let msg = if self.tiered {
+        let (msg, sent) = if self.tiered {
             let roots = str_list(kv(line, "roots").unwrap());
             let stages: Vec<Value> = match kv(line, "stages").unwrap() {
                 "-" => vec![],
@@ -328,13 +642,16 @@ impl S {
                     .collect(),
             };
             let uris: Value = if !uri_ok { json!(["ipfs://ok", "not a url"]) } else if roots.len() % 2 == 0 { Value::Null } else { json!(["ipfs://tree"]) };
-            json!({"stages": stages, "merkle_roots": roots, "merkle_tree_uris": uris, "admins": admins, "admins_mutable": mutable})
+            (json!({"stages": stages, "merkle_roots": roots, "merkle_tree_uris": uris, "admins": admins, "admins_mutable": mutable}), roots)
         } else {
             let root = kv(line, "root").unwrap();
             let uri: Value = if !uri_ok { json!("not a url") } else if kv_u64(line, "start").unwrap() % 2 == 0 { Value::Null } else { json!("ipfs://tree") };
-            json!({"merkle_root": root, "merkle_tree_uri": uri, "start_time": ts(kv_u64(line, "start").unwrap()), "end_time": ts(kv_u64(line, "end").unwrap()),
+            (
+                json!({"merkle_root": root, "merkle_tree_uri": uri, "start_time": ts(kv_u64(line, "start").unwrap()), "end_time": ts(kv_u64(line, "end").unwrap()),
                    "mint_price": {"denom": denom(0), "amount": WL_PRICE.to_string()}, "per_address_limit": kv_u64(line, "pal").unwrap(),
-                   "admins": admins, "admins_mutable": mutable})
+                   "admins": admins, "admins_mutable": mutable}),
+                vec![root.to_string()],
+            )
         };
         let code = self.wl_code;
         let app = self.app.as_mut().unwrap();
@@ -342,18 +659,23 @@ impl S {
         match r {
             Ok(Ok(w)) => {
                 self.wl = Some(w);
-                self.roots0 = self.roots().unwrap_or_default();
+                self.sent_roots = sent.clone();
+                // MONITOR "malformed hashes … never a positive answer" at instantiate: a root that is not hex of the digest size was stored
+                if let Some(bad) = sent.iter().find(|r| !is_hex_of(r, self.n())) {
+                    self.viol = Some((format!("{}/instantiate/malformed-root-accepted", self.cname()), format!("instantiate accepted the malformed root `{}`", &bad[..bad.len().min(80)])));
+                }
+                self.check_roots_unchanged("instantiate");
                 match kv(line, "minter") {
                     None | Some("none") => {}
                     Some(k) => {
                         if let Err(e) = self.setup_minter(k) {
-                            return format!("bad-minter-setup:{}", e.replace(' ', "_"));
+                            return (format!("{line} res=1"), format!("bad-minter-setup:{}", e.replace(' ', "_")));
                         }
                     }
                 }
-                format!("ok {}", self.obs(now))
+                (format!("{line} res=1"), format!("ok {} ## v=ok {}", self.obs_primary(), self.obs_cfg().0))
             }
-            _ => "err".into(),
+            _ => (format!("{line} res=0"), "err ## v=err".into()),
         }
     }
 
@@ -396,76 +718,65 @@ impl S {
         let factory = app.instantiate_contract(factory_code, a(CREATOR), &fparams, &[], "factory", None).map_err(|e| format!("factory: {:#}", e))?;
         app.sudo(SudoMsg::Bank(BankSudo::Mint { to_address: addr(CREATOR), amount: vec![coin(5_000_000_000, denom(0))] })).unwrap();
         let create = json!({"create_minter": {"init_msg": init_msg, "collection_params": collection}});
+        // the minter is the contract instantiated from `minter_code` (no dependence on event attribute names or on
+        // cw-multi-test's address numbering): compare the set of contracts of that code before and after
         let res = app.execute_contract(a(CREATOR), factory, &create, &[coin(5_000_000_000, denom(0))]).map_err(|e| format!("create_minter: {:#}", e))?;
-        let addrs: Vec<String> = res
-            .events
-            .iter()
-            .filter(|e| e.ty == "instantiate")
-            .flat_map(|e| e.attributes.iter().filter(|a| a.key == "_contract_address").map(|a| a.value.clone()))
-            .collect();
-        self.minter = Some(Addr::unchecked(addrs.first().ok_or("no minter address")?.clone()));
+        let mut cands: Vec<String> = res.events.iter().flat_map(|e| e.attributes.iter().map(|a| a.value.clone())).collect();
+        cands.sort();
+        cands.dedup();
+        let minter = cands
+            .into_iter()
+            .find(|c| app.wrap().query_wasm_contract_info(c.clone()).map(|i| i.code_id == minter_code).unwrap_or(false))
+            .ok_or("no contract of the minter code was instantiated")?;
+        self.minter = Some(Addr::unchecked(minter));
         Ok(())
     }
 
-    fn op_exec(&mut self, line: &str) -> String {
+    fn op_exec(&mut self, line: &str) -> (String, String) {
         let now = kv_u64(line, "now").unwrap();
         self.set_time(now);
         let op = kv(line, "op").unwrap().to_string();
         let wl = self.wl.clone().unwrap();
         let code = self.wl_code;
-        let sender = kv_u64(line, "sender").map(a);
+        let sender = kv_u64(line, "sender").map(a).unwrap_or_else(|| a(CREATOR));
         let admins_of = |l: &str| -> Vec<String> {
-            let mut v: Vec<String> = kv_list(l, "admins").unwrap().iter().map(|i| addr(*i as u64)).collect();
-            if !kv_bool(l, "ok").unwrap() {
+            let mut v: Vec<String> = kv_list(l, "admins").unwrap_or_default().iter().map(|i| addr(*i as u64)).collect();
+            if !kv_bool(l, "ok").unwrap_or(true) {
                 v.push("Ab".into());
             }
             v
         };
-        let opt_ts = |k: &str| -> Value { kv_opt_u64(line, k).unwrap().map(|t| json!(ts(t))).unwrap_or(Value::Null) };
+        let opt_ts = |k: &str| -> Value { kv_opt_u64(line, k).flatten().map(|t| json!(ts(t))).unwrap_or(Value::Null) };
+        // raw JSON for every message (the crates' typed enums are not used: a new variant must not stop this from compiling)
         let msg: Option<Value> = match op.as_str() {
-            "update_start" => {
-                let m = whitelist_mtree::msg::ExecuteMsg::UpdateStartTime(Timestamp::from_nanos(kv_u64(line, "t").unwrap()));
-                assert_eq!(plain_surface(&m), op);
-                Some(serde_json::to_value(&m).unwrap())
-            }
-            "update_end" => {
-                let m = whitelist_mtree::msg::ExecuteMsg::UpdateEndTime(Timestamp::from_nanos(kv_u64(line, "t").unwrap()));
-                assert_eq!(plain_surface(&m), op);
-                Some(serde_json::to_value(&m).unwrap())
-            }
-            "p_update_admins" => Some(serde_json::to_value(&whitelist_mtree::msg::ExecuteMsg::UpdateAdmins { admins: admins_of(line) }).unwrap()),
-            "p_freeze" => Some(serde_json::to_value(&whitelist_mtree::msg::ExecuteMsg::Freeze {}).unwrap()),
-            "t_update_admins" => Some(serde_json::to_value(&tiered_whitelist_merkletree::msg::ExecuteMsg::UpdateAdmins { admins: admins_of(line) }).unwrap()),
-            "t_freeze" => Some(serde_json::to_value(&tiered_whitelist_merkletree::msg::ExecuteMsg::Freeze {}).unwrap()),
+            "update_start" => Some(json!({"update_start_time": ts(kv_u64(line, "t").unwrap())})),
+            "update_end" => Some(json!({"update_end_time": ts(kv_u64(line, "t").unwrap())})),
+            "update_admins" => Some(json!({"update_admins": {"admins": admins_of(line)}})),
+            "freeze" => Some(json!({"freeze": {}})),
             "update_stage" => {
-                let price: Value = kv_opt_u64(line, "denom").unwrap().map(|d| json!({"denom": denom(d), "amount": WL_PRICE.to_string()})).unwrap_or(Value::Null);
-                let v = json!({"update_stage_config": {"stage_id": kv_u64(line, "id").unwrap(), "name": null, "start_time": opt_ts("start"), "end_time": opt_ts("end"),
-                               "mint_price": price, "per_address_limit": kv_opt_u64(line, "pal").unwrap(), "mint_count_limit": null}});
-                // must parse as the typed message
-                let m: tiered_whitelist_merkletree::msg::ExecuteMsg = serde_json::from_value(v.clone()).expect("typed update_stage_config");
-                assert_eq!(tiered_surface(&m), op);
-                Some(v)
+                let price: Value = kv_opt_u64(line, "denom").flatten().map(|d| json!({"denom": denom(d), "amount": WL_PRICE.to_string()})).unwrap_or(Value::Null);
+                Some(json!({"update_stage_config": {"stage_id": kv_u64(line, "id").unwrap(), "name": null, "start_time": opt_ts("start"), "end_time": opt_ts("end"),
+                               "mint_price": price, "per_address_limit": kv_opt_u64(line, "pal").flatten(), "mint_count_limit": null}}))
             }
-            "p_migrate" | "t_migrate" => None,
-            _ => return "bad-op".into(),
-        };
-        // a plain op on the tiered contract (or vice versa) cannot be expressed: the JSON does not parse ⇒ err on both sides
-        // `freeze` / `update_admins` are the same JSON in both contracts: the prefix only says which model op is meant
-        let kind_fits = match op.as_str() {
-            "p_update_admins" | "p_freeze" | "p_migrate" => !self.tiered,
-            "t_update_admins" | "t_freeze" | "t_migrate" => self.tiered,
-            _ => true,
+            "raw" => {
+                let name = kv(line, "name").unwrap_or("update_merkle_tree");
+                let shape = kv_u64(line, "shape").unwrap_or(0);
+                let root = kv(line, "root").unwrap_or("-");
+                let nroots = kv_u64(line, "nroots").unwrap_or(1) as usize;
+                Some(raw_message(&self.surface[self.tiered as usize], name, shape, root, nroots, now))
+            }
+            "migrate" => None,
+            _ => return (line.to_string(), "bad-op".into()),
         };
         let app = self.app.as_mut().unwrap();
-        let ok = kind_fits && match msg {
-            Some(m) => matches!(catch(|| app.execute_contract(sender.unwrap_or_else(|| a(CREATOR)), wl, &m, &[])), Ok(Ok(_))),
-            None => {
-                let fits = (op == "t_migrate") == self.tiered;
-                fits && matches!(catch(|| app.migrate_contract(a(CREATOR), wl, &Empty {}, code)), Ok(Ok(_)))
-            }
+        let ok = match msg {
+            Some(m) => matches!(catch(|| app.execute_contract(sender, wl, &m, &[])), Ok(Ok(_))),
+            None => matches!(catch(|| app.migrate_contract(a(CREATOR), wl, &Empty {}, code)), Ok(Ok(_))),
         };
         self.check_roots_unchanged(&op);
-        format!("{} {}", if ok { "ok" } else { "err" }, self.obs(now))
+        let (cfg, wit) = self.obs_cfg();
+        let model_line = if ok { format!("{line} res=1 {wit}") } else { format!("{line} res=0") };
+        (model_line, format!("x {} ## v={} {}", self.obs_primary(), if ok { "ok" } else { "err" }, cfg))
     }
 
     fn op_has(&mut self, line: &str) -> String {
@@ -474,14 +785,25 @@ impl S {
         let Some(member) = hex_arg(line, "m") else { return "bad-op".into() };
         let proof = str_list(kv(line, "proof").unwrap());
         let wl = self.wl.clone().unwrap();
-        let app = self.app.as_ref().unwrap();
         let q = json!({"has_member": {"member": member, "proof_hashes": proof}});
-        let out = match catch(|| app.wrap().query_wasm_smart::<Value>(wl, &q)) {
-            Ok(Ok(v)) => format!("ok {}", v["has_member"].as_bool().unwrap() as u8),
+        let out = match self.query(&wl, &q) {
+            Ok(v) => match v["has_member"].as_bool() {
+                Some(b) => format!("ok {}", b as u8),
+                None => "err".to_string(),
+            },
             _ => "err".to_string(),
         };
         self.monitor_has(now, &member, &proof, &out, line);
         out
+    }
+
+    /// the root the property says must be in force at `now`: the SENT root of the window the harness computes
+    fn root_in_force(&self, now: u64) -> Option<String> {
+        if self.tiered {
+            self.window_idx(now).and_then(|i| self.sent_roots.get(i).cloned())
+        } else {
+            self.sent_roots.first().cloned()
+        }
     }
 
     /// direct transcription of the property on the implementation's own answers (independent of the Lean model)
@@ -489,7 +811,7 @@ impl S {
         if self.viol.is_some() {
             return;
         }
-        let c = if self.tiered { "tiered-whitelist-merkletree" } else { "whitelist-merkletree" };
+        let c = self.cname();
         let n = self.n();
         let bad = |p: &str, w: String| Some((format!("{c}/has_member/{p}"), format!("{w} on `{}` => `{out}`", &line[..line.len().min(400)])));
         // malformed hashes: error, never an answer
@@ -498,36 +820,45 @@ impl S {
             return;
         }
         // the root that must be used
-        let Ok(roots) = self.roots() else { return };
         let root = if self.tiered {
-            match self.active_idx(now) {
+            match self.window_idx(now) {
                 None => {
                     if out != "err" {
                         self.viol = bad("no-active-stage-answered", "no stage is active but the query answered".into());
                     }
                     return;
                 }
-                Some(i) => match roots.get(i) {
+                Some(i) => match self.sent_roots.get(i) {
                     Some(r) => r.clone(),
-                    None => return,
+                    None => return, // fewer roots than stages: nothing is committed for this stage
                 },
             }
         } else {
-            roots[0].clone()
+            match self.sent_roots.first() {
+                Some(r) => r.clone(),
+                None => return,
+            }
         };
         let known = self.by_root.get(&root);
         if out == "ok 1" {
             // soundness: only listed entries of the list committed by *this* root
-            let listed = known.map(|(_, set)| set.contains(member)).unwrap_or(false);
+            let listed = known.map(|k| k.set.contains(member)).unwrap_or(false);
             if !listed {
-                self.viol = bad("non-member-accepted", format!("`{member}` is not in the list committed by the root in force"));
-                return;
+                // the one exception the (partial) soundness theorem makes: the queried string IS the preimage of an inner node
+                let inner = known.map(|k| k.inner.contains(member.as_bytes())).unwrap_or(false);
+                if inner && !self.literal {
+                    self.marks.push(format!("has:{}:inner-preimage-accepted", if self.tiered { "t" } else { "p" }));
+                } else {
+                    let key = if inner { "inner-preimage-accepted" } else { "non-member-accepted" };
+                    self.viol = bad(key, format!("`{}` is not in the list committed by the root in force", member.escape_default()));
+                    return;
+                }
             }
         }
-        if let Some((slot, set)) = known {
-            if set.contains(member) {
+        if let Some(k) = known {
+            if k.set.contains(member) {
                 // completeness: a listed entry with (one of) its rs_merkle proof(s) must be accepted
-                let (tree, members) = &self.slots[slot];
+                let (tree, members) = &self.slots[&k.slot];
                 let own = members.iter().enumerate().filter(|(_, m)| m.as_str() == member).any(|(i, _)| tree.proof_hex(i).as_slice() == proof);
                 if own && out != "ok 1" {
                     self.viol = bad("member-rejected", format!("listed entry `{member}` with its own proof was not accepted"));
@@ -536,78 +867,113 @@ impl S {
         }
     }
 
-    fn op_mint(&mut self, line: &str) -> String {
+    fn op_mint(&mut self, line: &str) -> (String, String) {
         let now = kv_u64(line, "now").unwrap();
         self.set_time(now);
-        let Some(sender) = hex_arg(line, "sender") else { return "bad-op".into() };
-        let Some(minter) = self.minter.clone() else { return "bad-op".into() };
+        let Some(sender) = hex_arg(line, "sender") else { return (line.to_string(), "bad-op".into()) };
+        let Some(minter) = self.minter.clone() else { return (line.to_string(), "bad-op".into()) };
         let stage = kv_opt_u64(line, "stage").unwrap();
         let alloc = kv_opt_u64(line, "alloc").unwrap();
         let proof: Option<Vec<String>> = match kv(line, "proof").unwrap() {
             "none" => None,
             v => Some(str_list(v)),
         };
-        self.mint_to(&sender, WL_PRICE, 0);
-        let msg = json!({"mint": {"stage": stage, "proof_hashes": proof, "allocation": alloc}});
-        let app = self.app.as_mut().unwrap();
-        let ok = matches!(catch(|| app.execute_contract(Addr::unchecked(sender.clone()), minter.clone(), &msg, &[coin(WL_PRICE, denom(0))])), Ok(Ok(_)));
-        self.check_roots_unchanged("mint");
-        if !ok {
-            return "err".into();
-        }
-        // the whitelist counter of (sender, active window), straight from the minter's storage
-        let key = if self.tiered { self.active_idx(now).map(|i| i + 1).unwrap_or(0) } else { 0 };
-        let app = self.app.as_ref().unwrap();
-        let st = app.contract_storage(&minter);
-        use vending_minter_merkle_wl::state as ms;
-        let m = match key {
-            0 => ms::WHITELIST_MINTER_ADDRS,
-            1 => ms::WHITELIST_FS_MINTER_ADDRS,
-            2 => ms::WHITELIST_SS_MINTER_ADDRS,
-            _ => ms::WHITELIST_TS_MINTER_ADDRS,
+        // attach what the minter itself quotes right now (prices are C02/C07's subject); fall back to the configured whitelist price
+        let (amt, dn) = match self.query(&minter, &json!({"mint_price": {}})) {
+            Ok(v) => (
+                v["current_price"]["amount"].as_str().and_then(|s| s.parse::<u128>().ok()).unwrap_or(WL_PRICE),
+                v["current_price"]["denom"].as_str().unwrap_or(&denom(0)).to_string(),
+            ),
+            Err(_) => (WL_PRICE, denom(0)),
         };
-        let count = m.may_load(&*st, &Addr::unchecked(sender.clone())).unwrap().unwrap_or(0);
-        drop(st);
-        // monitor: the sender is bound into the leaf — an accepted whitelist mint means THIS sender's own
-        // (stage, sender, allocation) entry is in the list committed by the root in force
-        if self.viol.is_none() {
-            let leaf = leaf_string(stage, &sender, alloc);
-            let roots = self.roots().unwrap_or_default();
-            let root = if self.tiered { self.active_idx(now).and_then(|i| roots.get(i).cloned()) } else { roots.first().cloned() };
-            let listed = root.and_then(|r| self.by_root.get(&r)).map(|(_, set)| set.contains(&leaf)).unwrap_or(false);
-            if !listed {
-                self.viol = Some(("merkle-minter/mint/unlisted-sender-minted".into(), format!("whitelist mint accepted although `{leaf}` is not a listed entry: `{}`", &line[..line.len().min(300)])));
+        self.mint_to(&sender, amt, &dn);
+        let msg = json!({"mint": {"stage": stage, "proof_hashes": proof, "allocation": alloc}});
+        let funds = if amt == 0 { vec![] } else { vec![coin(amt, dn)] };
+        // facts for the monitors, taken BEFORE the call
+        let key = self.window_key(now);
+        let leaf = leaf_string(stage, &sender, alloc);
+        let committed = self.root_in_force(now).and_then(|r| self.by_root.get(&r).map(|k| (k.slot, k.set.contains(&leaf))));
+        let listed = key.is_some() && committed.map(|c| c.1).unwrap_or(false);
+        // listed in the list of ANY root the harness sent (used when the harness sees no window in force at all)
+        let listed_anywhere = self.sent_roots.iter().any(|r| self.by_root.get(r).map(|k| k.set.contains(&leaf)).unwrap_or(false));
+        let own_proof = match (&proof, committed) {
+            (Some(p), Some((slot, true))) => {
+                let (tree, members) = &self.slots[&slot];
+                members.iter().enumerate().filter(|(_, m)| **m == leaf).any(|(i, _)| tree.proof_hex(i).as_slice() == p.as_slice())
+            }
+            _ => false,
+        };
+        let pal = if self.tiered { key.and_then(|k| self.stages().get(k as usize - 1).map(|s| s.2)).unwrap_or(0) } else { self.plain_cfg().2 };
+        let allowance = alloc.unwrap_or(pal);
+        let seen = key.map(|k| *self.ghost_mints.get(&(sender.clone(), k)).unwrap_or(&0)).unwrap_or(0);
+        let app = self.app.as_mut().unwrap();
+        let ok = matches!(catch(|| app.execute_contract(Addr::unchecked(sender.clone()), minter.clone(), &msg, &funds)), Ok(Ok(_)));
+        self.check_roots_unchanged("mint");
+        if ok {
+            if let Some(k) = key {
+                *self.ghost_mints.entry((sender.clone(), k)).or_insert(0) += 1;
             }
         }
-        format!("ok {count}")
+        if self.viol.is_none() {
+            if ok && !listed && (key.is_some() || !listed_anywhere) {
+                // MONITOR: the sender is bound into the leaf — an accepted whitelist mint means THIS sender's own
+                // (stage, sender, allocation) entry is in the list committed by the root in force
+                self.viol = Some(("merkle-minter/mint/unlisted-sender-minted".into(), format!("whitelist mint accepted although `{leaf}` is not a listed entry of the list in force: `{}`", &line[..line.len().min(300)])));
+            } else if ok && !listed {
+                // accepted while the harness sees NO window in force, by somebody who is on one of the committed lists: a question
+                // of window semantics (C12/C13), not of membership — recorded, and the model's primary column disagrees
+                self.marks.push("mint:accepted-outside-every-window".into());
+                self.notes.insert("a whitelist mint was accepted at an instant at which the harness sees no whitelist window in force (window semantics differ from `start ≤ t < end` / `start ≤ t ≤ end`)".into());
+            } else if !ok && listed && own_proof && seen == 0 && allowance >= 1 {
+                // MONITOR: completeness at the minter — a listed entry, presenting its own proof in its own window for the
+                // first time, with a non-zero allowance, paying the quoted price, is let through
+                self.viol = Some(("merkle-minter/mint/listed-rejected".into(), format!("first whitelist mint of the listed entry `{leaf}` with its own proof was rejected: `{}`", &line[..line.len().min(300)])));
+            }
+        }
+        if listed && own_proof {
+            self.marks.push(format!("mintfacts:own-proof:seen{}:{}", seen.min(3), if ok { "ok" } else { "err" }));
+        }
+        // drift column: the minter's own counter for the sender, through its `MintCount` query
+        let cnt = match self.query(&minter, &json!({"mint_count": {"address": sender}})) {
+            Ok(v) => v["count"].as_u64().map(|c| c.to_string()).unwrap_or_else(|| "?".into()),
+            Err(_) => "query-failed".into(),
+        };
+        (format!("{line} res={}", ok as u8), format!("{} ## cnt={cnt}", if ok { "ok" } else { "err" }))
+    }
+
+    /// ExecuteMsg variants of the contract under test this harness has no protocol op for
+    fn unknown_variants(&self) -> Vec<String> {
+        let known = known_variants(self.tiered);
+        self.surface[self.tiered as usize].variants.iter().map(|(n, _)| n.clone()).filter(|n| !known.iter().any(|(k, _)| k == n)).collect()
     }
 }
 
 impl Sut for S {
     fn begin(&mut self, header: &str) -> (String, String) {
-        *self = fresh(kv(header, "kind") == Some("tiered"));
+        let surface = std::mem::replace(&mut self.surface, no_surface());
+        *self = fresh(kv(header, "kind") == Some("tiered"), surface);
+        self.literal = kv(header, "literal") == Some("1");
         (header.to_string(), "case".to_string())
     }
     fn exec(&mut self, line: &str) -> (String, String) {
         let op = line.split_whitespace().next().unwrap_or("");
-        let out = match op {
-            "hash" => self.op_hash(line),
+        match op {
+            "hash" => (line.to_string(), self.op_hash(line)),
             "leaf" => match hex_arg(line, "m") {
                 Some(m) => {
                     self.pending.push(m);
-                    "ok".into()
+                    (line.to_string(), "ok".into())
                 }
-                None => "bad-op".into(),
+                None => (line.to_string(), "bad-op".into()),
             },
-            "build" => self.op_build(line),
-            "proof" => self.op_proof(line),
+            "build" => (line.to_string(), self.op_build(line)),
+            "proof" => (line.to_string(), self.op_proof(line)),
             "inst" => self.op_inst(line),
             "exec" if self.wl.is_some() => self.op_exec(line),
-            "has" if self.wl.is_some() => self.op_has(line),
+            "has" if self.wl.is_some() => (line.to_string(), self.op_has(line)),
             "mint" if self.wl.is_some() => self.op_mint(line),
-            _ => "bad-op".into(),
-        };
-        (line.to_string(), out)
+            _ => (line.to_string(), "bad-op".into()),
+        }
     }
     fn monitor(&mut self) -> Option<(String, String)> {
         self.viol.take()
@@ -616,23 +982,45 @@ impl Sut for S {
 
 // ------------------------------------------------------------------------------------------------ generators
 
-#[derive(Clone, Copy, PartialEq)]
+#[derive(Clone, Copy, PartialEq, Debug)]
 enum Names {
-    Acct,   // acct00123 (9 chars)
-    Bech32, // stars1 + 38 lower-case alphanumerics (44 chars)
+    Acct,       // acct00123 (9 chars)
+    Bech32,     // stars1 + 38 lower-case alphanumerics (44 chars: an account)
+    Contract64, // stars1 + 58 (64 chars: a contract / DAO / smart-wallet address — a bare leaf is exactly 2·32 bytes)
+    Mixed,      // 44- and 64-character senders in one list
+    Digit,      // starts with a decimal digit (outside the hypothesis of `C14_sender_bound`)
+}
+fn bech_like(tag: u64, i: u64, len: usize) -> String {
+    let mut r = Rng::new(tag ^ i.wrapping_mul(0x9E37_79B9_7F4A_7C15));
+    let cs = b"023456789acdefghjklmnpqrstuvwxyz";
+    let mut s = String::from("stars1");
+    while s.len() < len {
+        s.push(cs[r.below(32) as usize] as char);
+    }
+    s
 }
 fn sender(names: Names, i: u64) -> String {
     match names {
         Names::Acct => addr(100 + i),
-        Names::Bech32 => {
-            let mut r = Rng::new(0xBEC4 ^ i);
-            let cs = b"023456789acdefghjklmnpqrstuvwxyz";
-            let mut s = String::from("stars1");
-            for _ in 0..38 {
-                s.push(cs[r.below(32) as usize] as char);
+        Names::Bech32 => bech_like(0xBEC4, i, 44),
+        Names::Contract64 => bech_like(0xC064, i, 64),
+        Names::Mixed => {
+            if i % 2 == 0 {
+                bech_like(0xBEC4, i, 44)
+            } else {
+                bech_like(0xC064, i, 64)
             }
-            s
         }
+        Names::Digit => format!("{}{}", (i * 7 + 3) % 10, addr(100 + i)),
+    }
+}
+fn names_tag(n: Names) -> &'static str {
+    match n {
+        Names::Acct => "acct",
+        Names::Bech32 => "b44",
+        Names::Contract64 => "c64",
+        Names::Mixed => "mixed",
+        Names::Digit => "digit",
     }
 }
 fn hx(s: &str) -> String {
@@ -684,15 +1072,44 @@ struct Ctx<'a> {
 }
 impl<'a> Ctx<'a> {
     fn step(&mut self, line: &str) -> String {
-        self.ses.step(self.sut, line)
+        let out = self.ses.step(self.sut, line);
+        for m in std::mem::take(&mut self.sut.marks) {
+            self.ses.mark(m);
+        }
+        for n in std::mem::take(&mut self.sut.notes) {
+            if !self.ses.notes.contains(&n) && self.ses.notes.len() < 60 {
+                self.ses.note(n);
+            }
+        }
+        out
+    }
+    fn k(&self) -> &'static str {
+        if self.sut.tiered {
+            "t"
+        } else {
+            "p"
+        }
     }
     fn has(&mut self, now: u64, member: &str, proof: &[String], class: &str) -> String {
         let out = self.step(&format!("has now={now} m={} proof={}", hx(member), fmt_strs(proof)));
-        let k = if self.sut.tiered { "t" } else { "p" };
+        let k = self.k();
         self.ses.mark(format!("has:{k}:{class}:{}", out.replace(' ', "")));
+        // coverage floor classes
+        if class.starts_with("own-proof") && out == "ok 1" {
+            self.ses.mark(format!("floor:has:{k}:own-proof-accepted"));
+        }
+        if class.starts_with("outsider") && out == "ok 0" {
+            self.ses.mark(format!("floor:has:{k}:outsider-rejected"));
+        }
+        if (class.starts_with("non-hex") || class.starts_with("wrong-length")) && out == "err" {
+            self.ses.mark(format!("floor:has:{k}:malformed-err"));
+        }
+        if (class.starts_with("before-first-stage") || class.starts_with("after-last-stage") || class.starts_with("gap-between")) && out == "err" {
+            self.ses.mark("floor:has:t:no-active-stage-err".to_string());
+        }
         out
     }
-    /// append the members, build the tree into `slot`, return (root, leaves)
+    /// append the members, build the tree into `slot`, return the root
     fn build(&mut self, slot: u64, leaves: &[String], hash_lines: bool) -> String {
         let alg = if self.sut.tiered { "blake3_16" } else { "sha256" };
         for l in leaves {
@@ -708,8 +1125,11 @@ impl<'a> Ctx<'a> {
         let out = self.step(&format!("proof slot={slot} i={i}"));
         str_list(out.strip_prefix("ok ").unwrap_or("-"))
     }
+    fn fee(&self) -> u128 {
+        creation_fee(self.sut.tiered)
+    }
 
-    /// all single-fault mutations of a valid (member, proof) pair; `others` = other listed members with their proofs
+    /// all single-fault mutations of a valid (member, proof) pair; `other` = another listed member with its proof
     fn adversarial(&mut self, now: u64, member: &str, proof: &[String], other: Option<(&str, Vec<String>)>, outsider: &str, sz: &str) {
         let n = self.sut.n();
         let cls = |c: &str| format!("{c}:{sz}");
@@ -721,6 +1141,10 @@ impl<'a> Ctx<'a> {
             }
         }
         self.has(now, outsider, proof, &cls("outsider-with-this-proof"));
+        // an outsider whose string has exactly the size of an inner preimage (2·digest bytes) but is no digest pair:
+        // on the SHA-256 contract this is the length of a bare contract address
+        let sized = bech_like(0x51ED, self.rng.below(1000), 2 * n);
+        self.has(now, &sized, proof, &cls("outsider-2n-bytes"));
         // non-member strings derived from the member
         let variants: Vec<String> = vec![
             format!("{member}0"),
@@ -801,15 +1225,21 @@ fn size_class(n: usize) -> &'static str {
     }
 }
 
+fn pick_names(rng: &mut Rng) -> Names {
+    *rng.pick(&[Names::Acct, Names::Acct, Names::Bech32, Names::Bech32, Names::Contract64, Names::Contract64, Names::Mixed, Names::Digit])
+}
+
 /// Scenario A: one list of `n` entries per tree; every (or a sample of) member's proof; adversarial pairs.
-fn scenario_membership(cx: &mut Ctx, tiered: bool, n: usize, seed_tag: u64) {
-    let names = if cx.rng.chance(1, 2) { Names::Acct } else { Names::Bech32 };
-    let form = cx.rng.below(5);
+fn scenario_membership(cx: &mut Ctx, tiered: bool, n: usize, seed_tag: u64, force: Option<(Names, u64)>) {
+    let (names, form) = match force {
+        Some(f) => f,
+        None => (pick_names(&mut cx.rng), cx.rng.below(5)),
+    };
     let dup = *cx.rng.pick(&[0u64, 0, 10, 50]);
     let kind = if tiered { "tiered" } else { "plain" };
     let k_stages = if tiered { cx.rng.range(1, 3) } else { 1 };
     let main = cx.rng.below(k_stages);
-    cx.ses.begin_case(cx.sut, &format!("case kind={kind} scen=membership n={n} stages={k_stages} tag={seed_tag}"));
+    cx.ses.begin_case(cx.sut, &format!("case kind={kind} scen=membership n={n} stages={k_stages} names={} tag={seed_tag}", names_tag(names)));
     let sz = size_class(n);
     // lists and trees
     let mut lists: Vec<Vec<String>> = vec![];
@@ -827,7 +1257,12 @@ fn scenario_membership(cx: &mut Ctx, tiered: bool, n: usize, seed_tag: u64) {
         lists.push(leaves);
         roots.push(root);
     }
+    let two_n = 2 * cx.sut.n();
+    if lists[main as usize].iter().any(|l| l.len() == two_n) {
+        cx.ses.mark(format!("list:{kind}:has-listed-entry-of-2n-bytes:{}", names_tag(names)));
+    }
     // instantiate
+    let fee = cx.fee();
     let t0 = GENESIS + 1_000 + cx.rng.below(1000);
     let mut windows: Vec<(u64, u64)> = vec![];
     let inst = if tiered {
@@ -840,18 +1275,21 @@ fn scenario_membership(cx: &mut Ctx, tiered: bool, n: usize, seed_tag: u64) {
             st.push(format!("{s}:{e}:{}:0", cx.rng.range(1, 50)));
             t = e;
         }
-        format!("inst now={t0} funds=0:1000000000 roots={} uri_ok=1 stages={} admins=11,12 admins_ok=1 mutable=1 minter=none", fmt_strs(&roots), st.join(";"))
+        format!("inst now={t0} funds=0:{fee} roots={} uri_ok=1 stages={} admins=11,12 admins_ok=1 mutable=1 minter=none", fmt_strs(&roots), st.join(";"))
     } else {
         windows.push((t0 + 100, t0 + 1000));
-        format!("inst now={t0} funds=0:1000000000 root={} uri_ok=1 start={} end={} pal=3 admins=11,12 admins_ok=1 mutable=1 minter=none", roots[0], t0 + 100, t0 + 1000)
+        format!("inst now={t0} funds=0:{fee} root={} uri_ok=1 start={} end={} pal=3 admins=11,12 admins_ok=1 mutable=1 minter=none", roots[0], t0 + 100, t0 + 1000)
     };
     let out = cx.step(&inst);
     if !out.starts_with("ok") {
         cx.ses.note(format!("UNEXPECTED: instantiate failed in membership scenario: {inst} => {out}"));
+        cx.ses.mark("UNEXPECTED:inst-failed:membership");
         cx.ses.end_case();
         return;
     }
     cx.ses.mark(format!("inst:{kind}:stages{k_stages}:{sz}"));
+    cx.ses.mark(format!("floor:inst:{kind}:ok"));
+    cx.ses.mark(format!("names:{kind}:{}", names_tag(names)));
     let mid = |w: (u64, u64)| (w.0 + w.1) / 2;
     // every member of the main list (sampled beyond 300)
     let main_u = main as usize;
@@ -878,7 +1316,8 @@ fn scenario_membership(cx: &mut Ctx, tiered: bool, n: usize, seed_tag: u64) {
         } else {
             *cx.rng.pick(&[t0, windows[0].0, windows[0].1, windows[0].1 + 5]) // the plain query ignores the clock
         };
-        let r = cx.has(t_in, &member, &proof, &format!("own-proof:{sz}:len{}", proof.len().min(13)));
+        let two = if member.len() == two_n { ":2n-bytes" } else { "" };
+        let r = cx.has(t_in, &member, &proof, &format!("own-proof:{sz}:len{}{two}", proof.len().min(13)));
         if r != "ok 1" {
             cx.ses.note(format!("member {i}/{n} not accepted ({kind})"));
         }
@@ -888,7 +1327,7 @@ fn scenario_membership(cx: &mut Ctx, tiered: bool, n: usize, seed_tag: u64) {
         }
         last = Some((member, proof));
     }
-    // tiered: clock outside every window / inside another stage
+    // tiered: clock outside every window / inside another stage; exact boundary instants of the main stage
     if tiered {
         let member = lists[main_u][0].clone();
         let proof = cx.proof(main as u64, 0);
@@ -896,6 +1335,21 @@ fn scenario_membership(cx: &mut Ctx, tiered: bool, n: usize, seed_tag: u64) {
         let lastw = *windows.last().unwrap();
         cx.has(first.0 - 1, &member, &proof, "before-first-stage");
         cx.has(lastw.1 + 1, &member, &proof, "after-last-stage");
+        {
+            let w = windows[main_u];
+            let prev_touches = main_u > 0 && windows[main_u - 1].1 == w.0;
+            let next_touches = main_u + 1 < windows.len() && windows[main_u + 1].0 == w.1;
+            let r = cx.has(w.1, &member, &proof, "boundary:main-end");
+            if r == "ok 1" {
+                cx.ses.mark("floor:boundary:t:accepted-at-end");
+            }
+            let r = cx.has(w.1 + 1, &member, &proof, &format!("boundary:main-end+1:next-touches{}", next_touches as u8));
+            if r != "ok 1" || lists.get(main_u + 1).map(|l| l.contains(&member)).unwrap_or(false) {
+                cx.ses.mark("floor:boundary:t:other-root-or-none-at-end+1");
+            }
+            cx.has(w.0, &member, &proof, &format!("boundary:main-start:prev-touches{}", prev_touches as u8));
+            cx.has(w.0 - 1, &member, &proof, &format!("boundary:main-start-1:prev-touches{}", prev_touches as u8));
+        }
         for j in 0..k_stages as usize {
             if j + 1 < k_stages as usize && windows[j].1 + 1 < windows[j + 1].0 {
                 cx.has(windows[j].1 + 1, &member, &proof, "gap-between-stages");
@@ -919,36 +1373,37 @@ fn scenario_membership(cx: &mut Ctx, tiered: bool, n: usize, seed_tag: u64) {
 /// Scenario B: malformed / adversarial instantiation parameters (root strings above all).
 fn scenario_instantiate(cx: &mut Ctx, tiered: bool) {
     let kind = if tiered { "tiered" } else { "plain" };
-    let n = cx.sut_n(tiered);
+    let n = if tiered { 16 } else { 32 };
     cx.ses.begin_case(cx.sut, &format!("case kind={kind} scen=instantiate"));
     let leaves: Vec<String> = (0..5).map(|i| sender(Names::Acct, i)).collect();
     let root = cx.build(0, &leaves, true);
     let proof0 = cx.proof(0, 0);
     let t0 = GENESIS + 5_000;
-    let variants: Vec<(&str, String)> = vec![
-        ("good", root.clone()),
-        ("upper", root.to_uppercase()),
-        ("short", root[..2 * n - 2].to_string()),
-        ("odd", root[..2 * n - 1].to_string()),
-        ("long", format!("{root}00")),
-        ("empty", String::new()),
-        ("nonhex", format!("{}zz", &root[..2 * n - 2])),
-        ("other-size", if tiered { format!("{root}{root}") } else { root[..32].to_string() }),
-        ("random", random_hex(&mut cx.rng, n)),
-        ("0x-prefixed", format!("0x{}", &root[..2 * n - 2])),
+    let fee = cx.fee();
+    let variants: Vec<(&str, String, bool)> = vec![
+        ("good", root.clone(), true),
+        ("upper", root.to_uppercase(), true),
+        ("short", root[..2 * n - 2].to_string(), false),
+        ("odd", root[..2 * n - 1].to_string(), false),
+        ("long", format!("{root}00"), false),
+        ("empty", String::new(), false),
+        ("nonhex", format!("{}zz", &root[..2 * n - 2]), false),
+        ("other-size", if tiered { format!("{root}{root}") } else { root[..32].to_string() }, false),
+        ("random", random_hex(&mut cx.rng, n), true),
+        ("0x-prefixed", format!("0x{}", &root[..2 * n - 2]), false),
     ];
-    for (name, r) in &variants {
+    for (name, r, wellformed) in &variants {
         for fault in ["none", "funds-low", "funds-high", "no-funds", "two-coins", "wrong-denom", "bad-uri", "bad-admin", "started", "start>end", "pre-genesis"] {
             if *name != "good" && fault != "none" && !cx.rng.chance(1, 6) {
                 continue;
             }
             let funds = match fault {
-                "funds-low" => "0:999999999",
-                "funds-high" => "0:1000000001",
-                "no-funds" => "-",
-                "two-coins" => "0:1000000000,1:5",
-                "wrong-denom" => "1:1000000000",
-                _ => "0:1000000000",
+                "funds-low" => format!("0:{}", fee - 1),
+                "funds-high" => format!("0:{}", fee + 1),
+                "no-funds" => "-".to_string(),
+                "two-coins" => format!("0:{fee},1:5"),
+                "wrong-denom" => format!("1:{fee}"),
+                _ => format!("0:{fee}"),
             };
             let uri_ok = (fault != "bad-uri") as u8;
             let admins_ok = (fault != "bad-admin") as u8;
@@ -973,6 +1428,9 @@ fn scenario_instantiate(cx: &mut Ctx, tiered: bool) {
             };
             let out = cx.step(&line);
             cx.ses.mark(format!("inst:{kind}:root-{name}:{fault}:{}", &out[..out.len().min(3)]));
+            if !wellformed && out.starts_with("err") {
+                cx.ses.mark(format!("floor:inst:{kind}:malformed-root-err"));
+            }
             if out.starts_with("ok") {
                 // whatever was accepted: the good proof only verifies against the good root
                 cx.has(start + 1, &leaves[0], &proof0, &format!("after-inst-root-{name}"));
@@ -998,7 +1456,7 @@ fn scenario_instantiate(cx: &mut Ctx, tiered: bool) {
             ("no-roots", format!("{}:{}:1:0", t0 + 10, t0 + 20), "-".into()),
         ];
         for (name, stages, roots) in shapes {
-            let out = cx.step(&format!("inst now={t0} funds=0:1000000000 roots={roots} uri_ok=1 stages={stages} admins=11 admins_ok=1 mutable=1 minter=none"));
+            let out = cx.step(&format!("inst now={t0} funds=0:{fee} roots={roots} uri_ok=1 stages={stages} admins=11 admins_ok=1 mutable=1 minter=none"));
             cx.ses.mark(format!("inst:tiered:shape-{name}:{}", &out[..out.len().min(3)]));
             if out.starts_with("ok") {
                 for t in [t0 + 9, t0 + 10, t0 + 15, t0 + 20, t0 + 21, t0 + 27, t0 + 30, t0 + 31] {
@@ -1010,24 +1468,35 @@ fn scenario_instantiate(cx: &mut Ctx, tiered: bool) {
     cx.ses.end_case();
 }
 
-impl<'a> Ctx<'a> {
-    fn sut_n(&self, tiered: bool) -> usize {
-        if tiered {
-            16
-        } else {
-            32
-        }
-    }
-}
-
 fn obs_u64(obs: &str, key: &str) -> u64 {
     kv_u64(obs, key).unwrap_or(0)
 }
 
-/// Scenario C: random histories over the complete execute surface; the root must stay what it was and keep verifying.
+/// the (start, end) windows a whitelist reports in the drift column of an `inst` / `exec` answer
+fn windows_of(obs: &str, tiered: bool) -> Vec<(u64, u64)> {
+    if tiered {
+        let mut v = vec![];
+        if let Some(st) = kv(obs, "stages") {
+            for s in st.split(';') {
+                let f: Vec<u64> = s.split(':').filter_map(|x| x.parse().ok()).collect();
+                if f.len() == 4 {
+                    v.push((f[0], f[1]));
+                }
+            }
+        }
+        v
+    } else {
+        vec![(obs_u64(obs, "start"), obs_u64(obs, "end"))]
+    }
+}
+
+/// Scenario C: random histories over the complete message surface (known variants, the other contract's variants, raw
+/// `update_merkle_tree` in several shapes, migrate), optionally with a bound minter and mints in between; the root must
+/// stay what it was and keep verifying.
 fn scenario_history(cx: &mut Ctx, tiered: bool, tag: u64) {
     let kind = if tiered { "tiered" } else { "plain" };
-    cx.ses.begin_case(cx.sut, &format!("case kind={kind} scen=history tag={tag}"));
+    let minter = if tag % 3 == 2 { *cx.rng.pick(&["vm", "vmf", "oem"]) } else { "none" };
+    cx.ses.begin_case(cx.sut, &format!("case kind={kind} scen=history minter={minter} tag={tag}"));
     let names = Names::Acct;
     let k_stages = if tiered { cx.rng.range(1, 3) } else { 1 } as usize;
     let mut lists = vec![];
@@ -1038,8 +1507,14 @@ fn scenario_history(cx: &mut Ctx, tiered: bool, tag: u64) {
         roots.push(cx.build(j as u64, &leaves, false));
         lists.push(leaves);
     }
+    // a list that is NOT committed: its (valid) root is what the raw root-writing messages offer
+    let other_leaves: Vec<String> = (0..3).map(|i| leaf_string(None, &sender(names, 900 + i), None)).collect();
+    let other_root = cx.build(9, &other_leaves, false);
+    let other_proof = cx.proof(9, 0);
+    let fee = cx.fee();
     let t0 = GENESIS + 1_000;
     let mutable = cx.rng.chance(3, 4) as u8;
+    let pal = cx.rng.range(1, 3);
     let inst = if tiered {
         let mut t = t0 + 100;
         let mut st = vec![];
@@ -1049,13 +1524,14 @@ fn scenario_history(cx: &mut Ctx, tiered: bool, tag: u64) {
             st.push(format!("{s}:{e}:{}:0", cx.rng.range(1, 50)));
             t = e;
         }
-        format!("inst now={t0} funds=0:1000000000 roots={} uri_ok=1 stages={} admins=11,12 admins_ok=1 mutable={mutable} minter=none", fmt_strs(&roots), st.join(";"))
+        format!("inst now={t0} funds=0:{fee} roots={} uri_ok=1 stages={} admins=11,12 admins_ok=1 mutable={mutable} minter={minter}", fmt_strs(&roots), st.join(";"))
     } else {
-        format!("inst now={t0} funds=0:1000000000 root={} uri_ok=1 start={} end={} pal=2 admins=11,12 admins_ok=1 mutable={mutable} minter=none", roots[0], t0 + 100, t0 + 600)
+        format!("inst now={t0} funds=0:{fee} root={} uri_ok=1 start={} end={} pal={pal} admins=11,12 admins_ok=1 mutable={mutable} minter={minter}", roots[0], t0 + 100, t0 + 600)
     };
     let mut obs = cx.step(&inst);
     if !obs.starts_with("ok") {
         cx.ses.note(format!("UNEXPECTED: instantiate failed in history scenario: {inst} => {obs}"));
+        cx.ses.mark("UNEXPECTED:inst-failed:history");
         cx.ses.end_case();
         return;
     }
@@ -1064,19 +1540,8 @@ fn scenario_history(cx: &mut Ctx, tiered: bool, tag: u64) {
     let n_ops = cx.rng.range(6, 16);
     for _ in 0..n_ops {
         // interesting instants of the current state
-        let mut edges: Vec<u64> = vec![];
-        if tiered {
-            if let Some(st) = kv(&obs, "stages") {
-                for s in st.split(';') {
-                    let f: Vec<u64> = s.split(':').filter_map(|x| x.parse().ok()).collect();
-                    if f.len() == 4 {
-                        edges.extend([f[0], f[1]]);
-                    }
-                }
-            }
-        } else {
-            edges.extend([obs_u64(&obs, "start"), obs_u64(&obs, "end")]);
-        }
+        let wins = windows_of(&obs, tiered);
+        let edges: Vec<u64> = wins.iter().flat_map(|w| [w.0, w.1]).collect();
         let mut cands: Vec<u64> = edges.iter().flat_map(|e| [e.saturating_sub(1), *e, e + 1]).filter(|t| *t >= now).collect();
         cands.push(now + cx.rng.range(0, 40));
         now = if cx.rng.chance(1, 2) { *cx.rng.pick(&cands) } else { now + cx.rng.range(0, 60) };
@@ -1086,38 +1551,65 @@ fn scenario_history(cx: &mut Ctx, tiered: bool, tag: u64) {
             c.extend([now, now + 1, GENESIS - 1, GENESIS, GENESIS + 1, now + rng.range(2, 300)]);
             *rng.pick(&c)
         };
-        let line = if tiered {
-            match cx.rng.below(10) {
-                0 => format!("exec now={now} op=t_freeze sender={who}"),
-                1 => format!("exec now={now} op=t_update_admins sender={who} admins={} ok={}", fmt_list(&pick_admins(&mut cx.rng)), cx.rng.chance(9, 10) as u8),
-                2 => format!("exec now={now} op=t_migrate"),
-                3 => format!("exec now={now} op=update_start sender={who} t={}", now + 5), // the other contract's message: cannot parse
-                _ => {
-                    let id = cx.rng.below(k_stages as u64 + 1);
-                    let o = |rng: &mut Rng, v: u64| if rng.chance(1, 2) { "-".to_string() } else { v.to_string() };
-                    let s = near(&mut cx.rng, &edges, now);
-                    let e = near(&mut cx.rng, &edges, now);
-                    let pal = *cx.rng.pick(&[0u64, 1, 7, 50, 51]);
-                    let dn = *cx.rng.pick(&[0u64, 0, 0, 1]);
-                    format!(
-                        "exec now={now} op=update_stage sender={who} id={id} start={} end={} pal={} denom={}",
-                        o(&mut cx.rng, s), o(&mut cx.rng, e), if cx.rng.chance(2, 3) { "-".to_string() } else { pal.to_string() }, if cx.rng.chance(4, 5) { "-".to_string() } else { dn.to_string() }
-                    )
+        let roll = cx.rng.below(14);
+        if minter != "none" && roll >= 11 {
+            // a mint in between: a listed sender with its own proof, or a thief with it
+            let j = wins.iter().position(|w| if tiered { w.0 <= now && now <= w.1 } else { w.0 <= now && now < w.1 }).unwrap_or(cx.rng.below(k_stages as u64) as usize).min(k_stages - 1);
+            let i = cx.rng.below(lists[j].len() as u64) as usize;
+            let p = cx.proof(j as u64, i);
+            let s = if cx.rng.chance(2, 3) { lists[j][i].clone() } else { sender(names, 5_000 + i as u64) };
+            let out = cx.step(&format!("mint now={now} sender={} stage=- alloc=- proof={}", hx(&s), fmt_strs(&p)));
+            cx.ses.mark(format!("hist-mint:{kind}:{minter}:{}:{}", if s == lists[j][i] { "listed" } else { "thief" }, &out[..out.len().min(3)]));
+            continue;
+        }
+        let line = match roll {
+            0 => format!("exec now={now} op=freeze sender={who}"),
+            1 => format!("exec now={now} op=update_admins sender={who} admins={} ok={}", fmt_list(&pick_admins(&mut cx.rng)), cx.rng.chance(9, 10) as u8),
+            2 => format!("exec now={now} op=migrate"),
+            3 => {
+                // a root-writing message that is not in the enum: another VALID root, several shapes, admin or stranger
+                let shape = cx.rng.below(7);
+                format!("exec now={now} op=raw sender={who} name=update_merkle_tree shape={shape} root={other_root} nroots={k_stages}")
+            }
+            4 => {
+                // the OTHER contract's variants: do not parse here
+                if tiered {
+                    format!("exec now={now} op=update_start sender={who} t={}", now + 5)
+                } else {
+                    format!("exec now={now} op=update_stage sender={who} id=0 start=- end={} pal=- denom=-", now + 50)
                 }
             }
-        } else {
-            match cx.rng.below(10) {
-                0 => format!("exec now={now} op=p_freeze sender={who}"),
-                1 => format!("exec now={now} op=p_update_admins sender={who} admins={} ok={}", fmt_list(&pick_admins(&mut cx.rng)), cx.rng.chance(9, 10) as u8),
-                2 => format!("exec now={now} op=p_migrate"),
-                3 => format!("exec now={now} op=update_stage sender={who} id=0 start=- end={} pal=- denom=-", now + 50), // the other contract's message: cannot parse
-                4..=6 => format!("exec now={now} op=update_start sender={who} t={}", near(&mut cx.rng, &edges, now)),
-                _ => format!("exec now={now} op=update_end sender={who} t={}", near(&mut cx.rng, &edges, now)),
+            _ if tiered => {
+                let id = cx.rng.below(k_stages as u64 + 1);
+                let o = |rng: &mut Rng, v: u64| if rng.chance(1, 2) { "-".to_string() } else { v.to_string() };
+                let s = near(&mut cx.rng, &edges, now);
+                let e = near(&mut cx.rng, &edges, now);
+                let pal = *cx.rng.pick(&[0u64, 1, 7, 50, 51]);
+                let dn = *cx.rng.pick(&[0u64, 0, 0, 1]);
+                format!(
+                    "exec now={now} op=update_stage sender={who} id={id} start={} end={} pal={} denom={}",
+                    o(&mut cx.rng, s),
+                    o(&mut cx.rng, e),
+                    if cx.rng.chance(2, 3) { "-".to_string() } else { pal.to_string() },
+                    if cx.rng.chance(4, 5) { "-".to_string() } else { dn.to_string() }
+                )
             }
+            5..=8 => format!("exec now={now} op=update_start sender={who} t={}", near(&mut cx.rng, &edges, now)),
+            _ => format!("exec now={now} op=update_end sender={who} t={}", near(&mut cx.rng, &edges, now)),
         };
         let out = cx.step(&line);
         let opk = kv(&line, "op").unwrap().to_string();
-        cx.ses.mark(format!("exec:{kind}:{opk}:{}:{}", if who == 19 { "stranger" } else if who == 13 { "maybe-admin" } else { "admin" }, &out[..3]));
+        let v = kv(&out, "v").unwrap_or("?").to_string();
+        cx.ses.mark(format!("exec:{kind}:{opk}:{}:{v}", if who == 19 { "stranger" } else if who == 13 { "maybe-admin" } else { "admin" }));
+        if opk == "raw" {
+            let after_end = wins.iter().all(|w| w.1 <= now);
+            cx.ses.mark(format!("raw:{kind}:update_merkle_tree:shape{}:{}:{v}", kv(&line, "shape").unwrap_or("?"), if after_end { "after-end" } else { "before-end" }));
+            if after_end && who != 19 && who != 13 {
+                cx.ses.mark(format!("floor:raw:{kind}:admin-after-end-sent"));
+            }
+            // the offered root must not have become the committed one
+            cx.has(now, &other_leaves[0], &other_proof, "outsider-of-offered-root-after-raw");
+        }
         obs = out;
         // the committed list keeps verifying (plain: at any time; tiered: when its stage is active)
         let j = cx.rng.below(k_stages as u64) as usize;
@@ -1138,16 +1630,108 @@ fn pick_admins(rng: &mut Rng) -> Vec<u64> {
     v
 }
 
+/// Scenario S: the whole message surface, enumerated at RUN TIME from the crate's JSON schema. Known variants are tied to
+/// protocol ops; every OTHER variant is sent — raw JSON, arguments from the schema with another VALID root wherever a
+/// string is wanted — by admin and stranger, before / inside / at the end of / after the window, and so are guessed
+/// exposures of `update_merkle_tree` (present in both sources, not dispatched). After each: the committed list must
+/// still verify and the offered list must not.
+fn scenario_surface(cx: &mut Ctx, tiered: bool) {
+    let kind = if tiered { "tiered" } else { "plain" };
+    cx.ses.begin_case(cx.sut, &format!("case kind={kind} scen=surface"));
+    let names: Vec<String> = cx.sut.surface[tiered as usize].variants.iter().map(|(n, _)| n.clone()).collect();
+    if !names.is_empty() {
+        cx.ses.mark(format!("floor:surface:{kind}:enumerated"));
+    }
+    for (n, op) in known_variants(tiered) {
+        if names.iter().any(|x| x == n) {
+            cx.ses.mark(format!("surface:{kind}:known:{n}={op}"));
+        } else {
+            cx.ses.mark(format!("surface:{kind}:MISSING:{n}"));
+            cx.ses.note(format!("surface: `{n}` is no longer a variant of the {kind} ExecuteMsg (the protocol op `{op}` will be rejected by the contract)"));
+        }
+    }
+    let unknown = cx.sut.unknown_variants();
+    for u in &unknown {
+        cx.ses.mark(format!("surface:{kind}:UNKNOWN:{u}"));
+        cx.ses.note(format!("surface: the {kind} ExecuteMsg has a variant `{u}` this harness has no protocol op for — it is sent as raw JSON (arguments from the schema, a valid foreign root wherever a string is wanted) under the monitors"));
+    }
+    let k_stages = if tiered { 2 } else { 1 };
+    let mut lists = vec![];
+    let mut roots = vec![];
+    for j in 0..k_stages {
+        let leaves: Vec<String> = (0..4).map(|i| sender(Names::Acct, (j * 10 + i) as u64)).collect();
+        roots.push(cx.build(j as u64, &leaves, false));
+        lists.push(leaves);
+    }
+    let other_leaves: Vec<String> = (0..3).map(|i| sender(Names::Acct, 900 + i)).collect();
+    let other_root = cx.build(9, &other_leaves, false);
+    let other_proof = cx.proof(9, 1);
+    let proofs: Vec<Vec<String>> = (0..k_stages).map(|j| cx.proof(j as u64, 1)).collect();
+    let fee = cx.fee();
+    let t0 = GENESIS + 2_000;
+    let (s1, e1, s2, e2) = (t0 + 10, t0 + 20, t0 + 20, t0 + 30);
+    let inst = if tiered {
+        format!("inst now={t0} funds=0:{fee} roots={} uri_ok=1 stages={s1}:{e1}:2:0;{s2}:{e2}:2:0 admins=11 admins_ok=1 mutable=1 minter=none", fmt_strs(&roots))
+    } else {
+        format!("inst now={t0} funds=0:{fee} root={} uri_ok=1 start={s1} end={e2} pal=2 admins=11 admins_ok=1 mutable=1 minter=none", roots[0])
+    };
+    let mut sends: Vec<(String, u64)> = vec![];
+    for shape in 0..7u64 {
+        sends.push(("update_merkle_tree".to_string(), shape));
+    }
+    sends.push(("c14_no_such_message".to_string(), 6));
+    for u in &unknown {
+        for shape in 0..4u64 {
+            sends.push((u.clone(), shape));
+        }
+    }
+    let last_end = e2;
+    for (name, shape) in &sends {
+        for (clock, cc) in [(t0 + 1, "before-start"), (s1 + 3, "inside"), (last_end, "at-end"), (last_end + 1, "after-end"), (last_end + 50, "long-after-end")] {
+            for who in [11u64, 19] {
+                let out = cx.step(&inst);
+                if !out.starts_with("ok") {
+                    cx.ses.note(format!("UNEXPECTED: instantiate failed in surface scenario: {inst} => {out}"));
+                    cx.ses.mark("UNEXPECTED:inst-failed:surface");
+                    cx.ses.end_case();
+                    return;
+                }
+                let out = cx.step(&format!("exec now={clock} op=raw sender={who} name={name} shape={shape} root={other_root} nroots={k_stages}"));
+                let v = kv(&out, "v").unwrap_or("?").to_string();
+                let known_unknown = if unknown.contains(name) { "UNKNOWN-VARIANT" } else { "not-in-enum" };
+                cx.ses.mark(format!("raw:{kind}:{known_unknown}:{name}:shape{shape}:{cc}:{}:{v}", if who == 11 { "admin" } else { "stranger" }));
+                if name == "update_merkle_tree" && cc == "after-end" && who == 11 {
+                    cx.ses.mark(format!("floor:raw:{kind}:admin-after-end-sent"));
+                }
+                // probes: inside stage 1 (plain: the clock is irrelevant) the committed list verifies, the offered list does not
+                let t_probe = s1 + 5;
+                cx.has(t_probe, &lists[0][1], &proofs[0], "own-proof:after-raw");
+                cx.has(t_probe, &other_leaves[1], &other_proof, "outsider-of-offered-root-after-raw");
+                if tiered {
+                    cx.has(s2 + 5, &lists[1][1], &proofs[1], "own-proof:after-raw:stage2");
+                }
+            }
+        }
+    }
+    // migrate to the same code, then the same probes
+    let out = cx.step(&inst);
+    if out.starts_with("ok") {
+        cx.step(&format!("exec now={} op=migrate", last_end + 1));
+        cx.has(s1 + 5, &lists[0][1], &proofs[0], "own-proof:after-migrate");
+    }
+    cx.ses.end_case();
+}
+
 /// Scenario D: the mint path of the three Merkle minters against both whitelists.
 fn scenario_mint(cx: &mut Ctx, tiered: bool, minter: &str, tag: u64) {
     let kind = if tiered { "tiered" } else { "plain" };
-    let names = if cx.rng.chance(1, 2) { Names::Acct } else { Names::Bech32 };
-    cx.ses.begin_case(cx.sut, &format!("case kind={kind} scen=mint minter={minter} tag={tag}"));
+    let names = pick_names(&mut cx.rng);
+    cx.ses.begin_case(cx.sut, &format!("case kind={kind} scen=mint minter={minter} names={} tag={tag}", names_tag(names)));
     let k_stages = if tiered { cx.rng.range(1, 3) } else { 1 } as usize;
     let mut entries: Vec<Vec<Entry>> = vec![];
     let mut roots = vec![];
     for j in 0..k_stages {
-        let nj = cx.rng.range(2, 9) as usize;
+        let nj = cx.rng.range(4, 9) as usize;
         let mut rf = cx.rng.fork();
         let mut es = gen_entries(&mut rf, nj, 4, 0, j as u64 + 1);
         for e in es.iter_mut() {
@@ -1157,6 +1741,7 @@ fn scenario_mint(cx: &mut Ctx, tiered: bool, minter: &str, tag: u64) {
         roots.push(cx.build(j as u64, &leaves, false));
         entries.push(es);
     }
+    let fee = cx.fee();
     let t0 = GENESIS + 1_000;
     let mut windows = vec![];
     let pal = cx.rng.range(1, 3);
@@ -1170,14 +1755,15 @@ fn scenario_mint(cx: &mut Ctx, tiered: bool, minter: &str, tag: u64) {
             st.push(format!("{s}:{e}:{pal}:0"));
             t = e;
         }
-        format!("inst now={t0} funds=0:1000000000 roots={} uri_ok=1 stages={} admins=11 admins_ok=1 mutable=1 minter={minter}", fmt_strs(&roots), st.join(";"))
+        format!("inst now={t0} funds=0:{fee} roots={} uri_ok=1 stages={} admins=11 admins_ok=1 mutable=1 minter={minter}", fmt_strs(&roots), st.join(";"))
     } else {
         windows.push((t0 + 100, t0 + 400));
-        format!("inst now={t0} funds=0:1000000000 root={} uri_ok=1 start={} end={} pal={pal} admins=11 admins_ok=1 mutable=1 minter={minter}", roots[0], t0 + 100, t0 + 400)
+        format!("inst now={t0} funds=0:{fee} root={} uri_ok=1 start={} end={} pal={pal} admins=11 admins_ok=1 mutable=1 minter={minter}", roots[0], t0 + 100, t0 + 400)
     };
     let out = cx.step(&inst);
     if !out.starts_with("ok") {
         cx.ses.note(format!("UNEXPECTED: instantiate failed in mint scenario: {inst} => {out}"));
+        cx.ses.mark("UNEXPECTED:inst-failed:mint");
         cx.ses.end_case();
         return;
     }
@@ -1188,10 +1774,17 @@ fn scenario_mint(cx: &mut Ctx, tiered: bool, minter: &str, tag: u64) {
             Some(p) => fmt_strs(p),
         };
         let out = cx.step(&format!("mint now={now} sender={} stage={} alloc={} proof={p}", hx(s), o(stage), o(alloc)));
-        cx.ses.mark(format!("mint:{minter}:{kind}:{class}:{}", &out[..out.len().min(3)]));
+        let r = &out[..out.len().min(3)];
+        cx.ses.mark(format!("mint:{minter}:{kind}:{class}:{r}"));
+        if class == "own-proof" && r == "ok " {
+            cx.ses.mark(format!("floor:mint:{minter}:{kind}:own-proof-ok"));
+        }
+        if class.starts_with("stolen-proof") && r == "err" {
+            cx.ses.mark(format!("floor:mint:{minter}:{kind}:stolen-proof-err"));
+        }
         out
     };
-    let mut now = windows[0].0.saturating_sub(2);
+    let mut now = windows[0].0.saturating_sub(1); // exactly one nanosecond before the first window
     // before the first window: whitelist inactive ⇒ public mint ⇒ closed
     {
         let e = entries[0][0].clone();
@@ -1199,11 +1792,13 @@ fn scenario_mint(cx: &mut Ctx, tiered: bool, minter: &str, tag: u64) {
         mint(cx, now, &sender(names, e.who), e.stage, e.alloc, Some(&p), "before-window");
     }
     for j in 0..k_stages {
-        let (ws, we) = windows[j];
+        let (ws, mut we) = windows[j];
         let start_ok = j == 0 || windows[j - 1].1 < ws;
         now = now.max(if start_ok { ws } else { ws + 1 });
         let es = entries[j].clone();
-        for (i, e) in es.iter().enumerate() {
+        // the last three entries are kept unminted for the "update between two mints" and exact-boundary steps below
+        let reserve = 3usize;
+        for (i, e) in es.iter().enumerate().take(es.len() - reserve) {
             let s = sender(names, e.who);
             let p = cx.proof(j as u64, i);
             let thief = sender(names, 5_000 + i as u64);
@@ -1229,15 +1824,105 @@ fn scenario_mint(cx: &mut Ctx, tiered: bool, minter: &str, tag: u64) {
             let allowance = e.alloc.unwrap_or(pal);
             let tries = allowance.min(4) + 1;
             for k in 0..tries {
-                now += cx.rng.below(2);
+                now += cx.rng.below(2); // same block time or the next nanosecond
                 if now > we {
                     break;
                 }
-                let out = mint(cx, now, &s, e.stage, e.alloc, Some(&p), if k < allowance { "own-proof" } else { "own-proof-over-allowance" });
-                let _ = out;
+                mint(cx, now, &s, e.stage, e.alloc, Some(&p), if k == 0 { "own-proof" } else if k < allowance { "own-proof-again" } else { "own-proof-over-allowance" });
+                if k == 0 && i == 0 {
+                    // AFTER a successful mint of this sender, in the same block: nothing it proved carries over
+                    mint(cx, now, &thief, e.stage, e.alloc, Some(&p), "stolen-proof-after-owner-minted");
+                    mint(cx, now, &s, e.stage, Some(e.alloc.unwrap_or(0) + 1), Some(&p), "inflated-allocation-after-own-mint");
+                    mint(cx, now, &s, Some(e.stage.unwrap_or(0) + 1), e.alloc, Some(&p), "wrong-stage-tag-after-own-mint");
+                    if !p.is_empty() {
+                        let mut f = p.clone();
+                        f[0] = flip_hex_digit(&f[0], 5);
+                        mint(cx, now, &s, e.stage, e.alloc, Some(&f), "bit-flipped-after-own-mint");
+                    } else {
+                        let nb = cx.sut.n();
+                        let ext = [random_hex(&mut cx.rng, nb)];
+                        mint(cx, now, &s, e.stage, e.alloc, Some(&ext), "extended-after-own-mint");
+                    }
+                    mint(cx, now, &s, e.stage, e.alloc, None, "no-proof-after-own-mint");
+                }
             }
             if now >= we {
                 break;
+            }
+        }
+        // ---- an UPDATE between two mints (same block time)
+        let (r1, r2) = (es.len() - 2, es.len() - 1);
+        let do_update = cx.rng.chance(2, 3);
+        if do_update && now + 3 < we && now >= ws + 2 {
+            now += 1;
+            let e1 = es[r1].clone();
+            let p1 = cx.proof(j as u64, r1);
+            let e2 = es[r2].clone();
+            let p2 = cx.proof(j as u64, r2);
+            mint(cx, now, &sender(names, e1.who), e1.stage, e1.alloc, Some(&p1), "own-proof");
+            if tiered && j + 1 < k_stages {
+                // hand the clock over to the next stage by two admin updates: this stage ends at now-1, the next starts now
+                let a = cx.step(&format!("exec now={now} op=update_stage sender=11 id={j} start=- end={} pal=- denom=-", now - 1));
+                let b = cx.step(&format!("exec now={now} op=update_stage sender=11 id={} start={now} end=- pal=- denom=-", j + 1));
+                let handed = kv(&a, "v") == Some("ok") && kv(&b, "v") == Some("ok");
+                cx.ses.mark(format!("mint:{minter}:tiered:handover-by-update:{}", if handed { "done" } else { "refused" }));
+                if handed {
+                    windows[j].1 = now - 1;
+                    windows[j + 1].0 = now;
+                    we = now - 1;
+                    // the unminted entry of THIS stage with its own proof: the root in force is now the next stage's
+                    let listed_next = entries[j + 1].contains(&e2);
+                    let out = mint(cx, now, &sender(names, e2.who), e2.stage, e2.alloc, Some(&p2), &format!("prev-stage-own-proof-after-handover:listed{}", listed_next as u8));
+                    if out.starts_with("err") && !listed_next {
+                        cx.ses.mark(format!("floor:mint:tiered:other-root-in-force-after-update"));
+                    }
+                    // … and an entry of the next stage is let through at the same instant
+                    let en = entries[j + 1][entries[j + 1].len() - 1].clone();
+                    let pn = cx.proof(j as u64 + 1, entries[j + 1].len() - 1);
+                    let out = mint(cx, now, &sender(names, en.who), en.stage, en.alloc, Some(&pn), "next-stage-own-proof-after-handover");
+                    if out.starts_with("ok") {
+                        cx.ses.mark(format!("floor:mint:tiered:next-stage-entry-accepted-after-update"));
+                    }
+                }
+            } else if !tiered {
+                // the admin closes the window at this very instant (end := now; the plain window is `start ≤ t < end`)
+                let a = cx.step(&format!("exec now={now} op=update_end sender=11 t={now}"));
+                let closed = kv(&a, "v") == Some("ok");
+                cx.ses.mark(format!("mint:{minter}:plain:closed-by-update:{}", if closed { "done" } else { "refused" }));
+                if closed {
+                    windows[j].1 = now;
+                    we = now;
+                    let out = mint(cx, now, &sender(names, e2.who), e2.stage, e2.alloc, Some(&p2), "own-proof-after-window-closed-by-update");
+                    if out.starts_with("err") {
+                        cx.ses.mark(format!("floor:mint:plain:rejected-after-close-by-update"));
+                    }
+                    // the membership query does not depend on the window
+                    cx.has(now, &entry_leaf(names, &e2), &p2, "own-proof:after-close-by-update");
+                }
+            } else {
+                // last stage of a tiered whitelist: a stranger's update changes nothing, the entry still gets in
+                cx.step(&format!("exec now={now} op=update_stage sender=19 id={j} start=- end={} pal=- denom=-", now - 1));
+                mint(cx, now, &sender(names, e2.who), e2.stage, e2.alloc, Some(&p2), "own-proof");
+            }
+        }
+        // a LISTED entry at the exact end of the window: the tiered window is `start ≤ t ≤ end`, the plain one `start ≤ t < end`
+        if now <= we {
+            let r0 = es.len() - 3;
+            let e0 = es[r0].clone();
+            let p0 = cx.proof(j as u64, r0);
+            if tiered {
+                let out = mint(cx, we, &sender(names, e0.who), e0.stage, e0.alloc, Some(&p0), "own-proof-at-window-end");
+                if out.starts_with("ok") {
+                    cx.ses.mark("floor:mint:tiered:accepted-at-window-end");
+                }
+            } else {
+                if now < we {
+                    let out = mint(cx, we - 1, &sender(names, e0.who), e0.stage, e0.alloc, Some(&p0), "own-proof-at-window-end-1");
+                    if out.starts_with("ok") {
+                        cx.ses.mark("floor:mint:plain:accepted-at-window-end-1");
+                    }
+                }
+                mint(cx, we, &sender(names, e0.who), e0.stage, e0.alloc, Some(&p0), "own-proof-at-window-end");
             }
         }
         // at the window's last instant and just after
@@ -1259,6 +1944,67 @@ fn scenario_mint(cx: &mut Ctx, tiered: bool, minter: &str, tag: u64) {
         }
     }
     cx.ses.end_case();
+}
+
+/// two strings whose BLAKE3/16 digests are both valid UTF-8 (so the 32-byte concatenation can travel as a JSON string)
+fn utf8_digest_strings(tag: u64) -> Vec<String> {
+    let mut found = vec![];
+    let mut i = 0u64;
+    while found.len() < 3 && i < 5_000_000 {
+        let s = format!("m{tag}x{i}");
+        if std::str::from_utf8(&blake3_16(s.as_bytes())).is_ok() {
+            found.push(s);
+        }
+        i += 1;
+    }
+    found
+}
+
+/// Scenario F: the counter-example to the LITERAL soundness clause, on the real contract (`C14_sound_counterexample`):
+/// the 2·16-byte preimage of an inner node is answered `has_member: true` although it is not a listed entry — no
+/// collision involved. The monitor excepts exactly this (the theorem's third disjunct) unless the case says `literal=1`.
+fn scenario_inner_preimage(cx: &mut Ctx, literal: bool) -> Vec<String> {
+    let ms = utf8_digest_strings(7);
+    let mut lines = vec![];
+    if ms.len() < 3 {
+        cx.ses.note("inner-preimage scenario skipped: no three strings with UTF-8 BLAKE3/16 digests found");
+        return lines;
+    }
+    let header = format!("case kind=tiered scen=inner-preimage literal={}", literal as u8);
+    cx.ses.begin_case(cx.sut, &header);
+    lines.push(header);
+    let fee = creation_fee(true);
+    let t0 = GENESIS + 3_000;
+    let mut step = |cx: &mut Ctx, l: String| -> String {
+        let o = cx.step(&l);
+        lines.push(l);
+        o
+    };
+    let (ha, hb, hc) = (blake3_16(ms[0].as_bytes()), blake3_16(ms[1].as_bytes()), blake3_16(ms[2].as_bytes()));
+    let (x, y) = if ha <= hb { (ha, hb) } else { (hb, ha) };
+    let mut pre = x.to_vec();
+    pre.extend_from_slice(&y);
+    let pre_s = String::from_utf8(pre).unwrap();
+    // two members: the inner preimage IS the root's preimage; empty proof
+    for m in &ms[..2] {
+        step(cx, format!("leaf m={}", hx(m)));
+    }
+    let root2 = step(cx, "build slot=0".to_string()).strip_prefix("ok ").unwrap_or("-").to_string();
+    // three members: the third is promoted; the inner preimage needs the proof [H(c)]
+    for m in &ms[..3] {
+        step(cx, format!("leaf m={}", hx(m)));
+    }
+    let root3 = step(cx, "build slot=1".to_string()).strip_prefix("ok ").unwrap_or("-").to_string();
+    step(cx, format!("inst now={t0} funds=0:{fee} roots={root2},{root3} uri_ok=1 stages={}:{}:1:0;{}:{}:1:0 admins=11 admins_ok=1 mutable=0 minter=none", t0 + 10, t0 + 20, t0 + 30, t0 + 40));
+    let o = step(cx, format!("has now={} m={} proof=-", t0 + 15, hx(&pre_s)));
+    cx.ses.mark(format!("has:t:inner-preimage:empty-proof:{}", o.replace(' ', "")));
+    let o = step(cx, format!("has now={} m={} proof={}", t0 + 35, hx(&pre_s), hex::encode(hc)));
+    cx.ses.mark(format!("has:t:inner-preimage:one-element-proof:{}", o.replace(' ', "")));
+    // a 32-byte string that is NOT an inner preimage stays out
+    let o = step(cx, format!("has now={} m={} proof=-", t0 + 15, hx(&"y".repeat(32))));
+    cx.ses.mark(format!("has:t:not-an-inner-preimage:{}", o.replace(' ', "")));
+    cx.ses.end_case();
+    lines
 }
 
 /// Scenario E: the Lean hashes against the Rust crates on inputs around every block / chunk boundary.
@@ -1284,33 +2030,79 @@ fn scenario_hashes(cx: &mut Ctx) {
 
 fn main() {
     let mut ses = Session::new("C14");
-    let mut sut = fresh(false);
+    let mut sut = fresh(false, [surface_of(false), surface_of(true)]);
     if ses.maybe_replay(&mut sut) {
         ses.finish(&mut sut);
     }
+    // ---- coverage floor: without these the run would be vacuous (every seed, quick tier)
+    for k in ["p", "t"] {
+        ses.require(format!("floor:has:{k}:own-proof-accepted"));
+        ses.require(format!("floor:has:{k}:outsider-rejected"));
+        ses.require(format!("floor:has:{k}:malformed-err"));
+    }
+    ses.require("floor:has:t:no-active-stage-err");
+    ses.require("floor:boundary:t:accepted-at-end");
+    ses.require("floor:boundary:t:other-root-or-none-at-end+1");
+    for kind in ["plain", "tiered"] {
+        ses.require(format!("floor:inst:{kind}:ok"));
+        ses.require(format!("floor:inst:{kind}:malformed-root-err"));
+        ses.require(format!("floor:surface:{kind}:enumerated"));
+        ses.require(format!("floor:raw:{kind}:admin-after-end-sent"));
+        for minter in ["vm", "vmf", "oem"] {
+            ses.require(format!("floor:mint:{minter}:{kind}:own-proof-ok"));
+            ses.require(format!("floor:mint:{minter}:{kind}:stolen-proof-err"));
+        }
+    }
+    ses.require("floor:mint:tiered:other-root-in-force-after-update");
+    ses.require("floor:mint:tiered:next-stage-entry-accepted-after-update");
+    ses.require("floor:mint:plain:rejected-after-close-by-update");
+    ses.require("floor:mint:tiered:accepted-at-window-end");
+    ses.require("floor:mint:plain:accepted-at-window-end-1");
+    ses.require("has:t:inner-preimage:empty-proof:ok1");
+    ses.require("list:plain:has-listed-entry-of-2n-bytes");
+    ses.require("mintfacts:own-proof:seen0:ok");
+
     let rng = ses.rng.fork();
     let thorough = ses.tier() == Tier::Thorough;
-    let reps_small = ses.scale(4, 24);
+    let reps_small = ses.scale(4, 20);
     let n_hist = ses.scale(300, 6000);
-    let n_mint = ses.scale(12, 150);
+    let n_mint = ses.scale(16, 150);
     let mut cx = Ctx { ses: &mut ses, sut: &mut sut, rng };
 
     scenario_hashes(&mut cx);
     for tiered in [false, true] {
         scenario_instantiate(&mut cx, tiered);
+        scenario_surface(&mut cx, tiered);
     }
-    // sizes: every size up to 17, around every power of two up to 257 (quick) / 4096 (thorough), some random
+    let ce = scenario_inner_preimage(&mut cx, false);
+    if let Ok(path) = std::env::var("C14_DUMP_COUNTEREXAMPLE") {
+        // development aid: write the literal-clause replay for corpus/C14 (header switched to `literal=1`)
+        let mut ops = ce.clone();
+        if let Some(h) = ops.first_mut() {
+            *h = h.replace("literal=0", "literal=1");
+        }
+        let doc = json!({"property": "C14", "kind": "monitor", "key": "tiered-whitelist-merkletree/has_member/inner-preimage-accepted",
+            "what": "the 32-byte preimage of an inner node is answered has_member:true although it is not a listed entry (no leaf/inner domain separation); Lean: C14_sound_counterexample",
+            "ops": ops, "how_to_replay": "./check C14 --replay corpus/C14/inner-preimage-accepted.json"});
+        std::fs::write(path, serde_json::to_string_pretty(&doc).unwrap()).ok();
+    }
+    // a bare 64-character (contract) address list on the SHA-256 contract: listed entries of exactly 2·32 bytes — every seed
+    scenario_membership(&mut cx, false, 5, 900, Some((Names::Contract64, 0)));
+    scenario_membership(&mut cx, false, 12, 901, Some((Names::Mixed, 0)));
+    // sizes: every size up to 17, around every power of two up to 257 (quick) / 4096 (thorough), beyond the pagination limits
+    // of the list-based whitelists (25/26, 100/101), some random
     let mut sizes: Vec<usize> = (1..=17).collect();
     for p in [32usize, 64, 128, 256] {
         sizes.extend([p - 1, p, p + 1]);
     }
+    sizes.extend([25, 26, 27, 100, 101, 102]);
     for _ in 0..4 {
         sizes.push(cx.rng.range(18, 257) as usize);
     }
     for tiered in [false, true] {
         for rep in 0..reps_small {
             for &n in &sizes {
-                scenario_membership(&mut cx, tiered, n, rep);
+                scenario_membership(&mut cx, tiered, n, rep, None);
             }
         }
         if thorough {
@@ -1324,7 +2116,7 @@ fn main() {
             }
             for rep in 0..2 {
                 for &n in &big {
-                    scenario_membership(&mut cx, tiered, n, 100 + rep);
+                    scenario_membership(&mut cx, tiered, n, 100 + rep, None);
                 }
             }
         }
@@ -1340,8 +2132,9 @@ fn main() {
         }
     }
     drop(cx);
-    ses.note("trees: rs_merkle 1.4 with the repo's SortingSha256Hasher (whitelist-merkletree/src/tests/hasher.rs) and its BLAKE3/16 twin; entries `stage‖sender‖allocation` in all four forms, senders `acctNNNNN` or 44-char bech32-like, duplicates 0/10/50 %");
-    ses.note("adversarial pairs per sampled member: another member's proof, outsider with a member's proof, mutated member string, truncated (first/last), extended (random/duplicate), swapped, reversed, one hex digit flipped, upper-cased element, wrong-length hex (±1, ±2, 0, the other contract's size), non-hex character");
+    ses.note("trees: rs_merkle 1.4 with LOCAL sorting hashers (SHA-256 / BLAKE3-16) cross-checked by a hand-rolled layered builder; entries `stage‖sender‖allocation` in all four forms; senders `acctNNNNN`, 44-char bech32-like, 64-char (contract-address length = 2·32 bytes), mixed 44/64, digit-leading; duplicates 0/10/50 %");
+    ses.note("adversarial pairs per sampled member: another member's proof, outsider with a member's proof, outsider of exactly 2·digest bytes, mutated member string, truncated (first/last), extended (random/duplicate), swapped, reversed, one hex digit flipped, upper-cased element, wrong-length hex (±1, ±2, 0, the other contract's size), non-hex character");
+    ses.note("message surface enumerated at run time from schema_for!(ExecuteMsg); raw `update_merkle_tree` (7 shapes, another valid root) sent before/inside/at/after the window by admin and stranger; every variant without a protocol op is sent the same way");
     ses.note("Lean SHA-256 / BLAKE3 / BLAKE3-16 compared with sha2 / blake3 on every leaf of trees ≤ 33 leaves, every proof element (via `proof`), every root, and on random inputs of every length 0..130 and around 64-byte / 1024-byte boundaries up to 20 kB");
     std::fs::create_dir_all(&ses.args.out).ok();
     std::fs::write(ses.args.out.join("classes.txt"), ses.classes.iter().cloned().collect::<Vec<_>>().join("\n")).ok();
